@@ -276,7 +276,11 @@ def scan_items(toks):
             pending_test = False
             continue
         if i + 3 < n and toks[i + 1].text == "!" and toks[i + 2].kind == "ident" and toks[i + 3].text in _OPEN:
-            i = skip_group(toks, i + 3)   # macro_rules! name { ... }
+            e = skip_group(toks, i + 3)   # macro_rules! name { ... }
+            if w == "macro_rules":
+                items.append(Item("macro", toks[i + 2].text, tuple(stack), i + 3, e, toks,
+                                  any(c[0] == "mod" and c[2] for c in stack)))
+            i = e
             pending_test = False
             continue
         i += 1
@@ -299,7 +303,7 @@ class N:
         return f"N({self.kind})"
 
 
-INT_TYPES = {"u8": 8, "u16": 16, "u32": 32, "u64": 64, "usize": 64}
+INT_TYPES = {"u8": 8, "u16": 16, "u32": 32, "u64": 64, "usize": 64, "u128": 128}
 
 _BINPREC = [  # lowest to highest; each level: (ops, assoc)
     (("||",), "l"), (("&&",), "l"), (("==", "!=", "<", ">", "<=", ">="), "n"), (("|",), "l"), (("^",), "l"),
@@ -309,10 +313,12 @@ _ASSIGN_OPS = ("=", "+=", "-=", "*=", "/=", "%=", "<<=", ">>=", "|=", "&=", "^="
 
 
 class Parser:
-    def __init__(self, toks, lo, hi):
+    def __init__(self, toks, lo, hi, macros=None):
         self.t = toks
         self.i = lo
         self.hi = hi
+        self.macros = macros or {}
+        self.expansions = 0
 
     # --- token helpers
     def peek(self, k=0):
@@ -358,7 +364,8 @@ class Parser:
             if self.peek().kind == "lifetime":
                 self.i += 1
             if self.at("mut"):
-                raise Unsupported("`&mut` types are not supported")
+                self.i += 1
+                return ("refmut", self.type_())
             return ("ref", self.type_())
         if self.eat("("):
             elems = []
@@ -368,10 +375,19 @@ class Parser:
                     break
             self.expect(")")
             return ("tuple", elems)
-        if self.at("["):
-            raise Unsupported("array / slice types are not supported")
+        if self.eat("["):
+            el = self.type_()
+            if self.eat(";"):
+                self.binary(0, True)      # array length: not tracked (an array is translated as a List)
+            self.expect("]")
+            return ("name", ["Vec"], [el])
         if self.at("impl") or self.at("dyn"):
-            raise Unsupported("`impl`/`dyn` types are not supported")
+            self.i += 1
+        if self.at("<"):                  # `<u64>::…` qualified path written as a type
+            self.i += 1
+            inner = self.type_()
+            self.close_angle()
+            return inner
         segs = [self.ident()]
         args = []
         while True:
@@ -382,7 +398,14 @@ class Parser:
             if self.at("<"):
                 self.i += 1
                 while True:
-                    args.append(self.type_())
+                    if self.peek().kind == "lifetime":
+                        self.i += 1
+                    elif self.peek().kind == "ident" and self.peek(1).text == "=":
+                        an = self.ident()
+                        self.i += 1
+                        args.append(("assoc", an, self.type_()))
+                    else:
+                        args.append(self.type_())
                     if not self.eat(","):
                         break
                 self.close_angle()
@@ -438,7 +461,21 @@ class Parser:
             self.expect(")")
             return N("pctor", path=segs, args=args)
         if self.at("{"):
-            raise Unsupported("struct patterns are not supported")
+            self.i += 1
+            fields, rest_ = [], False
+            while not self.at("}"):
+                if self.eat(".."):
+                    rest_ = True
+                    break
+                fn_ = self.ident()
+                if self.eat(":"):
+                    fields.append((fn_, self.pattern()))
+                else:
+                    fields.append((fn_, N("pident", name=fn_, mut=False)))
+                if not self.eat(","):
+                    break
+            self.expect("}")
+            return N("pstruct", path=segs, fields=fields, rest=rest_)
         if len(segs) == 1 and (segs[0][0].islower() or segs[0][0] == "_") and segs[0] != "None":
             return N("pident", name=segs[0], mut=mut)
         return N("ppath", path=segs)
@@ -466,8 +503,6 @@ class Parser:
             if self.peek().kind == "ident" and self.peek().text in ("fn", "struct", "enum", "const", "static",
                                                                     "use", "impl", "trait", "mod", "type"):
                 raise Unsupported(f"nested item `{self.peek().text}` in a function body")
-            if self.at("for") or self.at("loop"):
-                raise Unsupported(f"`{self.peek().text}` loops are not supported (only `while`)")
             if self.peek().kind == "lifetime":
                 raise Unsupported("loop labels are not supported")
             e = self.expr(stmt=True)
@@ -475,7 +510,7 @@ class Parser:
                 items.append(N("expr", e=e, semi=True))
             elif self.at("}"):
                 tail = e
-            elif e.kind in ("if", "match", "while", "block"):
+            elif e.kind in ("if", "match", "while", "block", "for"):
                 items.append(N("expr", e=e, semi=False))
             else:
                 raise Unsupported(f"parse: expected `;` or `}}` after expression, found `{self.peek().text}`")
@@ -497,7 +532,10 @@ class Parser:
                 raise Unsupported("`break` with a label or a value is not supported")
             return N("break")
         if self.at("continue"):
-            raise Unsupported("`continue` is not supported")
+            self.i += 1
+            if self.peek().kind == "lifetime":
+                raise Unsupported("`continue` with a label is not supported")
+            return N("continue")
         lhs = self.range_expr(nostruct)
         t = self.peek()
         if t.kind == "punct" and t.text in _ASSIGN_OPS:
@@ -507,11 +545,15 @@ class Parser:
         return lhs
 
     def range_expr(self, nostruct):
+        if self.at(".."):
+            self.i += 1
+            rhs = None if (self.at("]") or self.at(")")) else self.binary(0, nostruct)
+            return N("range", lo=None, hi=rhs, inclusive=False)
         lhs = self.binary(0, nostruct)
         if self.at("..") or self.at("..="):
             inc = self.peek().text == "..="
             self.i += 1
-            rhs = self.binary(0, nostruct)
+            rhs = None if (self.at("]") or self.at(")") or self.at("{")) else self.binary(0, nostruct)
             return N("range", lo=lhs, hi=rhs, inclusive=inc)
         return lhs
 
@@ -564,9 +606,15 @@ class Parser:
         e = self.primary(nostruct)
         while True:
             if self.at("?"):
-                raise Unsupported("the `?` operator is not supported")
+                self.i += 1
+                e = N("try", e=e)
+                continue
             if self.at("["):
-                raise Unsupported("indexing is not supported")
+                self.i += 1
+                ix = self.expr()
+                self.expect("]")
+                e = N("index", e=e, i=ix)
+                continue
             if self.at("(") and e.kind == "path":
                 e = N("call", path=e.path, args=self.args())
                 continue
@@ -578,10 +626,18 @@ class Parser:
                     continue
                 if nxt.kind == "ident":
                     self.i += 2
+                    tf = None
                     if self.at("::"):
-                        raise Unsupported("turbofish method call")
+                        self.i += 1
+                        self.expect("<")
+                        tf = []
+                        while True:
+                            tf.append(self.type_())
+                            if not self.eat(","):
+                                break
+                        self.close_angle()
                     if self.at("("):
-                        e = N("mcall", recv=e, name=nxt.text, args=self.args())
+                        e = N("mcall", recv=e, name=nxt.text, args=self.args(), turbofish=tf)
                     else:
                         e = N("field", e=e, name=nxt.text)
                     continue
@@ -614,7 +670,31 @@ class Parser:
             if t.text == "{":
                 return self.block()
             if t.text == "|" or t.text == "||":
-                raise Unsupported("closures are not supported")
+                return self.closure()
+            if t.text == "[":
+                self.i += 1
+                elems = []
+                while not self.at("]"):
+                    elems.append(self.expr())
+                    if self.eat(";"):
+                        cnt = self.expr()
+                        self.expect("]")
+                        return N("vecrep", elem=elems[0], n=cnt)
+                    if not self.eat(","):
+                        break
+                self.expect("]")
+                return N("vec", elems=elems)
+            if t.text == "<":          # `<u64>::max_value()`
+                self.i += 1
+                ty = self.type_()
+                self.close_angle()
+                if ty[0] != "name":
+                    raise Unsupported("qualified path on a non-nominal type")
+                segs = list(ty[1])
+                while self.at("::"):
+                    self.i += 1
+                    segs.append(self.ident())
+                return N("path", path=segs)
             raise Unsupported(f"parse: unexpected `{t.text}` in expression")
         if t.kind != "ident":
             raise Unsupported(f"parse: unexpected token `{t.text}`")
@@ -622,7 +702,18 @@ class Parser:
         if w == "if":
             self.i += 1
             if self.at("let"):
-                raise Unsupported("`if let` is not supported")
+                self.i += 1
+                pat = self.pattern()
+                self.expect("=")
+                sc = self.expr(nostruct=True)
+                th = self.block()
+                el = N("block", items=[], tail=None)
+                if self.eat("else"):
+                    if self.at("if"):
+                        el = N("block", items=[], tail=self.primary(nostruct))
+                    else:
+                        el = self.block()
+                return N("match", s=sc, arms=[(pat, th), (N("pwild"), el)], iflet=True)
             c = self.expr(nostruct=True)
             th = self.block()
             el = None
@@ -659,7 +750,19 @@ class Parser:
         if w in ("true", "false"):
             self.i += 1
             return N("boollit", value=(w == "true"))
-        if w in ("move", "unsafe", "loop", "for", "async"):
+        if w == "loop":
+            self.i += 1
+            return N("while", c=N("boollit", value=True), body=self.block(), isloop=True)
+        if w == "for":
+            self.i += 1
+            pat = self.pattern()
+            self.expect("in")
+            it = self.expr(nostruct=True)
+            return N("for", pat=pat, it=it, body=self.block())
+        if w == "move" and self.peek(1).text in ("|", "||"):
+            self.i += 1
+            return self.closure()
+        if w in ("move", "unsafe", "async"):
             raise Unsupported(f"`{w}` expressions are not supported")
         if w == "vec" and self.peek(1).text == "!":
             self.i += 2
@@ -669,8 +772,10 @@ class Parser:
             elems = []
             while not self.at("]"):
                 elems.append(self.expr())
-                if self.at(";"):
-                    raise Unsupported("vec![x; n] is not supported")
+                if self.eat(";"):
+                    cnt = self.expr()
+                    self.expect("]")
+                    return N("vecrep", elem=elems[0], n=cnt)
                 if not self.eat(","):
                     break
             self.expect("]")
@@ -679,15 +784,116 @@ class Parser:
         segs = [self.ident()]
         while self.at("::"):
             if self.peek(1).text == "<":
-                raise Unsupported("turbofish")
+                self.i += 2
+                while True:
+                    self.type_()
+                    if not self.eat(","):
+                        break
+                self.close_angle()
+                continue
             self.i += 1
             segs.append(self.ident())
         if self.at("!"):
             if self.peek(1).text in _OPEN and self.peek(1).kind == "punct":
+                if len(segs) == 1 and segs[0] in self.macros:
+                    return self.expand_macro(segs[0])
                 raise Unsupported(f"macro `{'::'.join(segs)}!` is not supported")
         if self.at("{") and not nostruct and segs[-1][0].isupper():
-            raise Unsupported("struct literals are not supported")
+            self.i += 1
+            fields = []
+            while not self.at("}"):
+                if self.at(".."):
+                    raise Unsupported("struct update syntax `..base` is not supported")
+                fn_ = self.ident() if self.peek().kind == "ident" else None
+                if fn_ is None:
+                    t2 = self.peek()
+                    if t2.kind != "num":
+                        raise Unsupported("parse: struct literal field")
+                    self.i += 1
+                    fn_ = t2.text
+                if self.eat(":"):
+                    fields.append((fn_, self.expr()))
+                else:
+                    fields.append((fn_, N("path", path=[fn_])))
+                if not self.eat(","):
+                    break
+            self.expect("}")
+            return N("structlit", path=segs, fields=fields)
         return N("path", path=segs)
+
+    def closure(self):
+        params = []
+        if self.eat("||"):
+            pass
+        else:
+            self.expect("|")
+            while not self.at("|"):
+                pat = self.pattern1()
+                ty = None
+                if self.eat(":"):
+                    ty = self.type_()
+                params.append((pat, ty))
+                if not self.eat(","):
+                    break
+            self.expect("|")
+        if self.eat("->"):
+            self.type_()
+            body = self.block()
+        else:
+            body = self.expr()
+        return N("closure", params=params, body=body)
+
+    def expand_macro(self, name):
+        """`name!(args)` for a single-rule `macro_rules!` of the same file whose parameters are all `$x:expr`:
+        token substitution (every argument is parenthesised), result parsed as a block"""
+        self.expansions += 1
+        if self.expansions > 200:
+            raise Unsupported("too many macro expansions")
+        params, body = self.macros[name]
+        self.expect("!")
+        start = self.i
+        end = skip_group(self.t, start)
+        groups, cur, depth = [], [], 0
+        for x in self.t[start + 1:end - 1]:
+            if x.kind == "punct" and x.text in _OPEN:
+                depth += 1
+            elif x.kind == "punct" and x.text in (")", "]", "}"):
+                depth -= 1
+            if depth == 0 and x.kind == "punct" and x.text == ",":
+                groups.append(cur); cur = []
+            else:
+                cur.append(x)
+        if cur:
+            groups.append(cur)
+        if len(groups) != len(params):
+            raise Unsupported(f"macro `{name}!`: {len(groups)} arguments for {len(params)} parameters")
+        sub = dict(zip(params, groups))
+        out = [Tok("punct", "{", -1)]
+        k = 0
+        while k < len(body):
+            x = body[k]
+            if x.text == "$" and k + 1 < len(body) and body[k + 1].kind == "ident":
+                pn = body[k + 1].text
+                if pn not in sub:
+                    raise Unsupported(f"macro `{name}!`: unknown parameter ${pn}")
+                g = sub[pn]
+                if len(g) == 1:
+                    out += g
+                else:
+                    simple = all(y.kind in ("ident", "num") or y.text in (".", "::") for y in g)
+                    out += g if simple else [Tok("punct", "(", -1)] + g + [Tok("punct", ")", -1)]
+                k += 2
+                continue
+            out.append(x)
+            k += 1
+        out.append(Tok("punct", "}", -1))
+        sp = Parser(out, 0, len(out), self.macros)
+        sp.expansions = self.expansions
+        blk = sp.block()
+        if sp.i != len(out):
+            raise Unsupported(f"macro `{name}!`: trailing tokens after expansion")
+        self.i = end
+        return blk
 
 
 def parse_int(text):
@@ -706,13 +912,63 @@ def parse_int(text):
     return v, (m.group(2) or None)
 
 
-def parse_fn(item):
-    """-> N('fn', name, params=[(kind, name, mut, type)], ret=type|None, body=block)"""
-    p = Parser(item.toks, item.lo, item.hi)
+def parse_macro(item):
+    """single-rule macro_rules with `$x:expr` parameters -> ([param names], [body tokens])"""
+    t = item.toks
+    i = item.lo + 1
+    if t[i].text not in _OPEN:
+        raise Unsupported("macro_rules: pattern")
+    pe = skip_group(t, i)
+    pat = t[i + 1:pe - 1]
+    params = []
+    k = 0
+    while k < len(pat):
+        if pat[k].text == "$" and k + 3 < len(pat) + 1 and pat[k + 1].kind == "ident" and pat[k + 2].text == ":" \
+                and pat[k + 3].text == "expr":
+            params.append(pat[k + 1].text)
+            k += 4
+            if k < len(pat):
+                if pat[k].text != ",":
+                    raise Unsupported("macro_rules: only comma separated `$x:expr` parameters are supported")
+                k += 1
+        else:
+            raise Unsupported("macro_rules: only `$x:expr` parameters are supported")
+    if pe >= item.hi or t[pe].text != "=>" or t[pe + 1].text not in _OPEN:
+        raise Unsupported("macro_rules: expected `=>`")
+    be = skip_group(t, pe + 1)
+    body = t[pe + 2:be - 1]
+    rest = [x for x in t[be:item.hi - 1] if x.text != ";"]
+    if rest:
+        raise Unsupported("macro_rules with several rules")
+    return params, body
+
+
+def parse_fn(item, macros=None):
+    """-> N('fn', name, params=[(kind, name, mut, type)], ret=type|None, body=block, typarams={T: type})"""
+    p = Parser(item.toks, item.lo, item.hi, macros)
     p.expect("fn")
     name = p.ident()
-    if p.at("<"):
-        raise Unsupported("generic functions are not supported")
+    typarams = {}
+
+    def bound(tp, b):
+        # `T: IntoIterator<Item = X>` / `Iterator<Item = X>`: the parameter is translated as a list of X
+        if b[0] == "name" and b[1][-1] in ("IntoIterator", "Iterator") and len(b[2]) == 1 and b[2][0][0] == "assoc" \
+                and b[2][0][1] == "Item":
+            typarams[tp] = ("name", ["Vec"], [b[2][0][2]])
+        else:
+            raise Unsupported(f"generic parameter `{tp}` with an unsupported bound")
+    if p.eat("<"):
+        while not p.at(">"):
+            if p.peek().kind == "lifetime":
+                p.i += 1
+            else:
+                tp = p.ident()
+                typarams.setdefault(tp, None)
+                if p.eat(":"):
+                    bound(tp, p.type_())
+            if not p.eat(","):
+                break
+        p.close_angle()
     p.expect("(")
     params = []
     while not p.at(")"):
@@ -720,7 +976,8 @@ def parse_fn(item):
             p.i += 2
             params.append(("self", "self", False, None))
         elif p.at("&") and p.peek(1).text == "mut" and p.peek(2).text == "self":
-            raise Unsupported("`&mut self` methods are not supported")
+            p.i += 3
+            params.append(("mutself", "self", True, None))
         elif p.at("self"):
             p.i += 1
             params.append(("self", "self", False, None))
@@ -737,12 +994,22 @@ def parse_fn(item):
     ret = None
     if p.eat("->"):
         ret = p.type_()
-    if p.at("where"):
-        raise Unsupported("`where` clauses are not supported")
+    if p.eat("where"):
+        while not p.at("{"):
+            tp = p.ident()
+            p.expect(":")
+            if tp not in typarams:
+                raise Unsupported("`where` clause on something that is not a type parameter")
+            bound(tp, p.type_())
+            if not p.eat(","):
+                break
+    for tp, b in typarams.items():
+        if b is None:
+            raise Unsupported(f"unbounded generic parameter `{tp}`")
     body = p.block()
     if p.i != item.hi:
         raise Unsupported("parse: trailing tokens after function body")
-    return N("fn", name=name, params=params, ret=ret, body=body)
+    return N("fn", name=name, params=params, ret=ret, body=body, typarams=typarams)
 
 
 def parse_const(item):
@@ -807,8 +1074,10 @@ def parse_enum(item):
             p.i += 1
             p.i = skip_group(p.t, p.i)
         v = p.ident()
-        if p.at("(") or p.at("{") or p.at("="):
-            raise Unsupported(f"enum variant `{v}` has fields or a discriminant")
+        if p.at("(") or p.at("{"):
+            raise Unsupported(f"enum variant `{v}` has fields")
+        if p.eat("="):
+            p.binary(0, True)          # explicit discriminant: irrelevant for matching
         vs.append(v)
         if not p.eat(","):
             break
@@ -847,7 +1116,7 @@ def show_ty(t):
         return t
     if t[0] == "tuple":
         return "(" + ", ".join(show_ty(x) for x in t[1]) + ")"
-    if t[0] == "enum":
+    if t[0] in ("enum", "struct"):
         return t[1]
     return t[0] + "<" + show_ty(t[1]) + ">"
 
@@ -885,7 +1154,7 @@ def unify(a, b, what=""):
             raise Unsupported(f"tuple arity mismatch {what}")
         for x, y in zip(a[1], b[1]):
             unify(x, y, what)
-    elif a[0] == "enum":
+    elif a[0] in ("enum", "struct"):
         if a[1] != b[1]:
             raise Unsupported(f"type mismatch: {a[1]} vs {b[1]} {what}")
     else:
@@ -930,6 +1199,10 @@ class Checker:
         self.casts = []
         self.loops = []
         self.shift_rhs = []
+        self.typarams = {}
+        self.range_loops = []
+        self.self_mode = None      # None | "flat" | "whole"
+        self.untyped_bins = []
 
     # ---- scopes
     def declare(self, name, ty, mut=False, kind="local"):
@@ -948,6 +1221,10 @@ class Checker:
     def resolve_type(self, syn):
         if syn[0] == "ref":
             return self.resolve_type(syn[1])
+        if syn[0] == "refmut":
+            raise Unsupported("`&mut` types are not supported (only `&mut self`)")
+        if syn[0] == "assoc":
+            raise Unsupported("associated type binding outside an iterator bound")
         if syn[0] == "tuple":
             if not syn[1]:
                 return "unit"
@@ -958,9 +1235,18 @@ class Checker:
             return n
         if n == "bool":
             return "bool"
-        if n in ("u128", "i8", "i16", "i32", "i64", "i128", "isize", "f32", "f64"):
+        if n in ("i8", "i16", "i32", "i64", "i128", "isize", "f32", "f64"):
             raise Unsupported(f"type `{n}` is not supported")
+        if len(segs) == 1 and n in self.typarams and not args:
+            return self.resolve_type(self.typarams[n])
+        if n == "Box" and len(args) == 1:
+            return self.resolve_type(args[0])
+        if n in ("Iterator", "IntoIterator") and len(args) == 1 and args[0][0] == "assoc" and args[0][1] == "Item":
+            return ("vec", self.resolve_type(args[0][2]))
         if n == "Option" and len(args) == 1:
+            return ("option", self.resolve_type(args[0]))
+        if n == "Result" and len(args) == 2:
+            # `Result<T, E>` is translated as `Option T`: which error is returned is not tracked
             return ("option", self.resolve_type(args[0]))
         if n == "Vec" and len(args) == 1:
             return ("vec", self.resolve_type(args[0]))
@@ -1055,6 +1341,7 @@ class Checker:
             unify(lt, rt, f"in `{op}`")
             if op in ("+", "-", "*", "/", "%"):
                 self.need_int(lt, op)
+                self.untyped_bins.append(e)
             return lt
         if k == "cast":
             t = self.infer(e.e)
@@ -1073,10 +1360,15 @@ class Checker:
                 unify(self.infer(x), t, "in vec![]")
             return ("vec", t)
         if k == "range":
-            if e.inclusive:
-                raise Unsupported("inclusive ranges are not supported")
+            if e.lo is None or e.hi is None:
+                raise Unsupported("open range outside an index expression")
             a, b = self.infer(e.lo), self.infer(e.hi)
             unify(a, b, "in range")
+            self.need_int(a, "..")
+            if e.inclusive or getattr(e, "force_list", False):
+                e.aslist = True            # a range used as an iterator: the list of its elements
+                return ("vec", a)
+            e.aslist = False
             return ("tuple", (a, b))
         if k == "field":
             return self.infer_field(e)
@@ -1115,18 +1407,110 @@ class Checker:
             else:
                 unify(self.infer(e.value), self.ret, "in `return`")
             return TVar()
-        if k == "break":
+        if k in ("break", "continue"):
             return TVar()
+        if k == "for":
+            it = e.it
+            while it.kind == "paren":
+                it = it.e
+            if it.kind == "range":
+                if it.inclusive or it.lo is None or it.hi is None:
+                    raise Unsupported("`for` over an inclusive or open range")
+                a, b = self.infer(it.lo), self.infer(it.hi)
+                unify(a, b, "in range")
+                self.need_int(a, "..")
+                it.ty = ("tuple", (a, b))
+                e.over = "range"
+                elt = a
+                self.range_loops.append(it)
+            else:
+                t = prune(self.infer(it))
+                if not (isinstance(t, tuple) and t[0] == "vec"):
+                    raise Unsupported(f"`for` over a value of type {show_ty(t)}")
+                e.over = "list"
+                elt = t[1]
+            e.itn = it
+            self.scopes.append({})
+            self.check_pattern(e.pat, elt, allow_bind=True)
+            unify(self.infer(e.body), "unit", "(`for` body)")
+            self.scopes.pop()
+            self.loops.append(e)
+            return "unit"
+        if k == "index":
+            bt = prune(self.infer(e.e))
+            if not (isinstance(bt, tuple) and bt[0] == "vec"):
+                raise Unsupported(f"indexing a value of type {show_ty(bt)}")
+            ix = e.i
+            while ix.kind == "paren":
+                ix = ix.e
+            if ix.kind == "range":
+                if ix.inclusive:
+                    raise Unsupported("inclusive range in a slice")
+                for part in (ix.lo, ix.hi):
+                    if part is not None:
+                        unify(self.infer(part), "usize", "in slice bound")
+                ix.ty = "unit"
+                e.slice = ix
+                return bt
+            e.slice = None
+            unify(self.infer(e.i), "usize", "in index")
+            return bt[1]
+        if k == "try":
+            t = prune(self.infer(e.e))
+            rt = prune(self.ret)
+            if not (isinstance(rt, tuple) and rt[0] == "option"):
+                raise Unsupported("`?` in a function that does not return an Option")
+            v = TVar()
+            unify(t, ("option", v), "operand of `?`")
+            return v
+        if k == "vecrep":
+            t = self.infer(e.elem)
+            unify(self.infer(e.n), "usize", "in `[x; n]`")
+            return ("vec", t)
+        if k == "structlit":
+            return self.infer_structlit(e)
+        if k == "closure":
+            raise Unsupported("closure outside an iterator method argument")
         if k == "assign":
             tgt = e.target
-            while tgt.kind == "paren":
+            while tgt.kind == "paren" or (tgt.kind == "un" and tgt.op == "*"):
                 tgt = tgt.e
-            if tgt.kind != "path" or len(tgt.path) != 1:
+            e.tkind = "var"
+            if tgt.kind == "field":
+                # x.f = v  (x a local / `self` of a record struct type)
+                base = tgt.e
+                while base.kind == "paren" or (base.kind == "un" and base.op == "*"):
+                    base = base.e
+                if base.kind != "path" or len(base.path) != 1:
+                    raise Unsupported("assignment to a field of something that is not a local variable")
+                tt = self.infer(tgt)
+                if getattr(tgt, "res", ("",))[0] != "sfield":
+                    raise Unsupported("assignment to a field that is not a field of a local struct value")
+                e.tkind = "field"
+                e.tfield = tgt
+                root = base
+            elif tgt.kind == "index":
+                base = tgt.e
+                while base.kind == "paren" or (base.kind == "un" and base.op == "*"):
+                    base = base.e
+                if base.kind != "path" or len(base.path) != 1:
+                    raise Unsupported("assignment to an element of something that is not a local variable")
+                tt = self.infer(tgt)
+                if tgt.slice is not None:
+                    raise Unsupported("assignment to a slice")
+                e.tkind = "index"
+                e.tindex = tgt
+                root = base
+            else:
+                if tgt.kind != "path" or len(tgt.path) != 1:
+                    raise Unsupported("assignment to something that is not a local variable")
+                tt = self.infer(tgt)
+                root = tgt
+            if root.res[0] != "local" or root.res[1].kind not in ("local", "param"):
                 raise Unsupported("assignment to something that is not a local variable")
-            tt = self.infer(tgt)
-            if tgt.res[0] != "local" or tgt.res[1].kind not in ("local", "param"):
-                raise Unsupported("assignment to something that is not a local variable")
-            e.binding = tgt.res[1]
+            if root.res[1].kind == "param" and getattr(root.res[1], "byref", False) and e.tkind != "var":
+                raise Unsupported("mutation through a reference parameter")
+            e.binding = root.res[1]
             e.binding.assigned = True
             vt = self.infer(e.value)
             if e.op in ("<<=", ">>="):
@@ -1220,7 +1604,9 @@ class Checker:
         if len(segs) == 1:
             n = segs[0]
             if n == "self":
-                b = self.self_value()
+                b = self.lookup("self")
+                if b is None:
+                    b = self.self_value()
                 e.res = ("local", b)
                 return b.ty
             b = self.lookup(n)
@@ -1251,11 +1637,28 @@ class Checker:
         base = e.e
         while base.kind == "paren" or (base.kind == "un" and base.op in ("*", "&")):
             base = base.e
-        if base.kind == "path" and base.path == ["self"]:
+        if base.kind == "path" and base.path == ["self"] and self.lookup("self") is None:
             b = self.self_field(e.name)
             e.res = ("local", b)
             return b.ty
         t = prune(self.infer(e.e))
+        if isinstance(t, tuple) and t[0] == "struct":
+            info = self.w.struct_info(t[1])
+            for rf, lf, fty in info.fields:
+                if rf == e.name:
+                    if fty is None:
+                        raise Unsupported(f"field `{e.name}` of `{t[1]}` has an unsupported type")
+                    e.res = ("sfield", lf, t[1])
+                    return fty
+            raise Unsupported(f"no field `{e.name}` on {t[1]}")
+        if not e.name.isdigit():
+            # field of a transparent one-field struct: the value itself (the nominal type is not tracked)
+            cands = self.w.transparent_with_field(e.name)
+            if len(cands) == 1 and is_same_shape(cands[0][1], t):
+                e.res = ("ident",)
+                return t
+            if len(cands) > 1:
+                raise Unsupported(f"field `.{e.name}`: several one-field structs have a field of this name")
         if e.name.isdigit():
             if isinstance(t, tuple) and t[0] == "tuple":
                 i = int(e.name)
@@ -1270,6 +1673,59 @@ class Checker:
             raise Unsupported(f"`.{e.name}` on a value whose type is not known to be a tuple here")
         raise Unsupported(f"field access `.{e.name}` on a non-`self` value")
 
+    def infer_structlit(self, e):
+        n = e.path[-1]
+        if n == "Self":
+            n = self.impl_type
+        if not n or not self.w.find_items("struct", n):
+            raise Unsupported(f"struct literal of unknown struct `{n}`")
+        info = self.w.struct_info(n)
+        given = dict(e.fields)
+        if len(given) != len(e.fields):
+            raise Unsupported("duplicate field in struct literal")
+        e.inits = []
+        for rf, lf, fty in info.fields:
+            if rf not in given:
+                raise Unsupported(f"struct literal of `{n}` without field `{rf}`")
+            v = given.pop(rf)
+            if fty is None:
+                vv = v
+                while vv.kind == "paren":
+                    vv = vv.e
+                if not (vv.kind in ("lit", "boollit") or (vv.kind == "path" and
+                                                           (vv.path == ["None"] or self.lookup(vv.path[0]) is not None or len(vv.path) == 1))):
+                    raise Unsupported(f"initialiser of the untranslated field `{rf}` is not a plain value")
+                continue
+            unify(self.infer(v), fty, f"in field `{rf}` of `{n}`")
+            e.inits.append((lf, v))
+        if given:
+            raise Unsupported(f"struct literal of `{n}` with unknown field `{list(given)[0]}`")
+        e.sinfo = info
+        if info.kind == "transparent":
+            return prune(info.fields[0][2])
+        return ("struct", n)
+
+    def infer_closure(self, c, argtys):
+        """type-check a closure against the parameter types; returns its result type"""
+        if c.kind == "paren":
+            return self.infer_closure(c.e, argtys)
+        if c.kind != "closure":
+            raise Unsupported("iterator method argument that is not a closure")
+        if len(c.params) != len(argtys):
+            raise Unsupported("closure arity")
+        self.scopes.append({})
+        for (pat, ty), at in zip(c.params, argtys):
+            if ty is not None:
+                unify(self.resolve_type(ty), at, "in closure parameter annotation")
+            self.check_pattern(pat, at, allow_bind=True)
+        saved = self.ret
+        self.ret = TVar()          # `return` inside a closure is refused by the generator
+        t = self.infer(c.body)
+        self.ret = saved
+        self.scopes.pop()
+        c.ty = t
+        return t
+
     def infer_call(self, e):
         segs = e.path
         n = segs[-1]
@@ -1281,9 +1737,19 @@ class Checker:
             self.need_int(a, n)
             e.res = (n,)
             return a
-        if segs == ["Some"] and len(args) == 1:
+        if segs in (["Some"], ["Ok"]) and len(args) == 1:
             e.res = ("some",)
             return ("option", self.infer(args[0]))
+        if len(segs) == 2 and segs[0] in INT_TYPES and n == "from_le_bytes" and len(args) == 1:
+            unify(self.infer(args[0]), ("vec", "u8"), "in `from_le_bytes`")
+            e.res = ("from_le_bytes", INT_TYPES[segs[0]] // 8)
+            return segs[0]
+        if segs == ["Box", "new"] and len(args) == 1:
+            e.res = ("ident",)
+            return self.infer(args[0])
+        if n == "empty" and len(segs) >= 2 and segs[-2] == "iter" and not args:
+            e.res = ("emptyiter",)
+            return ("vec", TVar())
         if len(segs) >= 2 and segs[-2] in INT_TYPES and n in ("max_value", "min_value") and not args:
             ty = segs[-2]
             e.res = ("intconst", (2 ** INT_TYPES[ty] - 1) if n == "max_value" else 0)
@@ -1296,7 +1762,7 @@ class Checker:
         # environment accessor
         for rec in ENV:
             if n == rec[0] and not args and (segs[:-1] in ([rec[1]], ["crate", rec[1]]) or
-                                             (len(segs) == 1 and self.w.file_stem(self.file) == rec[1])):
+                                             (len(segs) == 1 and self.w.find_fn(segs, self.file, self.impl_type) is None)):
                 b = self.env(rec)
                 e.res = ("env", b)
                 return b.ty
@@ -1316,6 +1782,22 @@ class Checker:
             if rec not in self.callees:
                 self.callees.append(rec)
             return rec.ret
+        # tuple-struct constructor of a record struct
+        if len(segs) == 1 and n[0].isupper() and len(args) > 1:
+            sn = n if n != "Self" else self.impl_type
+            if sn and self.find_tuple_struct(sn):
+                info = self.w.struct_info(sn)
+                if len(args) != len(info.fields):
+                    raise Unsupported(f"arity of `{sn}(..)`")
+                e.inits = []
+                for a, (rf, lf, fty) in zip(args, info.fields):
+                    if fty is None:
+                        raise Unsupported(f"field {rf} of `{sn}` has an unsupported type")
+                    unify(self.infer(a), fty, f"in `{sn}(..)`")
+                    e.inits.append((lf, a))
+                e.sinfo = info
+                e.res = ("tuplector",)
+                return ("struct", sn)
         # newtype constructor
         if len(segs) == 1 and n[0].isupper() and len(args) == 1:
             nt = self.w.newtype_of(n if n != "Self" else (self.impl_type or n))
@@ -1324,6 +1806,47 @@ class Checker:
                 e.res = ("ident",)
                 return prune(args[0].ty)
         raise Unsupported(f"call to `{'::'.join(segs)}`, which is not a translated function")
+
+    def call_method(self, e, f, recv_node, recv_ty, is_self):
+        """call of the whitelisted method `f` on a receiver"""
+        n = e.name
+        rec = self.w.translate(f)
+        if rec.self_mode is None:
+            raise Unsupported(f"`.{n}()` but `{n}` takes no self")
+        if len(e.args) != len(rec.params):
+            raise Unsupported(f"arity mismatch calling `{n}`")
+        for a, pb in zip(e.args, rec.params):
+            unify(self.infer(a), pb.ty, f"in argument of `{n}`")
+        for er in rec.env_recs:
+            self.env(er)
+        if rec not in self.callees:
+            self.callees.append(rec)
+        if is_self and self.lookup("self") is None:
+            # flattened `self`: the callee's self fields are our self fields
+            if rec.self_mode != "flat":
+                raise Unsupported(f"`&mut self` method `{n}` called from a `&self` method")
+            for fname in rec.self_field_names:
+                self.self_field(fname)
+            e.res = ("selfmethod", rec)
+            return rec.ret
+        if rec.self_mode == "whole":
+            base = recv_node
+            while base.kind == "paren" or (base.kind == "un" and base.op in ("*", "&")):
+                base = base.e
+            if base.kind != "path" or base.res[0] != "local" or base.res[1].kind not in ("local", "param"):
+                raise Unsupported(f"`&mut self` method `{n}` on something that is not a local variable")
+            if getattr(base.res[1], "byref", False):
+                raise Unsupported("mutation through a reference parameter")
+            base.res[1].assigned = True
+            e.res = ("mutmethod", rec, base.res[1])
+            return rec.ret
+        e.res = ("method", rec, recv_ty)
+        return rec.ret
+
+    def find_tuple_struct(self, name):
+        if not self.w.find_items("struct", name):
+            return False
+        return self.w.struct(name)[0] == "tuple"
 
     def infer_mcall(self, e):
         recv = e.recv
@@ -1335,34 +1858,40 @@ class Checker:
             if self.impl_type is None:
                 raise Unsupported("`self` outside an impl")
             f = self.w.find_fn([self.impl_type, n], self.file, self.impl_type)
-            if f is None:
+            if f is not None:
+                rt = self.infer(recv) if self.lookup("self") is not None else None
+                return self.call_method(e, f, recv, rt, True)
+            if self.lookup("self") is None and not (self.w.newtype_of(self.impl_type) is not None):
                 raise Unsupported(f"method `{self.impl_type}::{n}` is not a translated function")
-            rec = self.w.translate(f)
-            if not rec.has_self:
-                raise Unsupported(f"`self.{n}()` but `{n}` takes no self")
-            if len(e.args) != len(rec.params):
-                raise Unsupported(f"arity mismatch calling `{n}`")
-            for a, pb in zip(e.args, rec.params):
-                unify(self.infer(a), pb.ty, f"in argument of `{n}`")
-            for fname in rec.self_field_names:
-                self.self_field(fname)
-            for er in rec.env_recs:
-                self.env(er)
-            e.res = ("selfmethod", rec)
-            if rec not in self.callees:
-                self.callees.append(rec)
-            return rec.ret
+        if base.kind == "range":
+            base.force_list = True
         rt = self.infer(recv)
         prt = prune(rt)
+        if isinstance(prt, tuple) and prt[0] == "struct":
+            f = self.w.find_fn([prt[1], n], self.file, self.impl_type)
+            if f is None:
+                if n == "clone" and not e.args:
+                    e.res = ("identm",)
+                    return rt
+                raise Unsupported(f"method `{prt[1]}::{n}` is not a translated function")
+            return self.call_method(e, f, recv, prt, False)
         if isinstance(prt, tuple) and prt[0] == "vec":
-            if n == "push" and len(e.args) == 1:
-                if base.kind != "path" or base.res[0] != "local" or base.res[1].kind not in ("local", "param"):
-                    raise Unsupported("`push` on something that is not a local variable")
-                unify(self.infer(e.args[0]), prt[1], "in `push`")
-                e.res = ("push", base.res[1])
-                base.res[1].assigned = True
-                return "unit"
-            raise Unsupported(f"Vec method `{n}` is not supported")
+            return self.infer_vec_method(e, base, prt)
+        if isinstance(prt, tuple) and prt[0] == "option":
+            if n == "unwrap" and not e.args:
+                e.res = ("optm", n)
+                return prt[1]
+            if n == "unwrap_or" and len(e.args) == 1:
+                unify(self.infer(e.args[0]), prt[1], "in `unwrap_or`")
+                e.res = ("optm", n)
+                return prt[1]
+            if n in ("is_some", "is_none") and not e.args:
+                e.res = ("optm", n)
+                return "bool"
+            if n in ("clone", "cloned", "copied") and not e.args:
+                e.res = ("identm",)
+                return rt
+            raise Unsupported(f"Option method `{n}` is not supported")
         if n in INT_METHODS_SAME and len(e.args) == 1:
             self.need_int(rt, n)
             unify(self.infer(e.args[0]), rt, f"in `.{n}()`")
@@ -1372,6 +1901,9 @@ class Checker:
             self.need_int(rt, n)
             e.res = ("builtin", n)
             return "u32"
+        if n == "to_le_bytes" and not e.args and is_int(prt):
+            e.res = ("to_le_bytes", INT_TYPES[prt] // 8)
+            return ("vec", "u8")
         if n in INT_METHODS_OPT and len(e.args) == 1:
             self.need_int(rt, n)
             unify(self.infer(e.args[0]), rt, f"in `.{n}()`")
@@ -1380,7 +1912,113 @@ class Checker:
         if n == "clone" and not e.args:
             e.res = ("identm",)
             return rt
+        # method of a transparent one-field struct (the nominal type is not tracked): resolved by name
+        cands = [w for w in self.w.whitelist if w.fn == n and w.impl and self.w.is_transparent(w.impl)]
+        if len(cands) == 1:
+            return self.call_method(e, cands[0], recv, prt, False)
+        if len(cands) > 1:
+            raise Unsupported(f"method `.{n}()` is ambiguous between transparent structs")
         raise Unsupported(f"method `.{n}()` is not supported")
+
+    def infer_vec_method(self, e, base, prt):
+        n, args, el = e.name, e.args, prt[1]
+
+        def local_recv():
+            if base.kind != "path" or base.res[0] != "local" or base.res[1].kind not in ("local", "param"):
+                raise Unsupported(f"`{n}` on something that is not a local variable")
+            if getattr(base.res[1], "byref", False):
+                raise Unsupported("mutation through a reference parameter")
+            base.res[1].assigned = True
+            return base.res[1]
+        if n == "push" and len(args) == 1:
+            b = local_recv()
+            unify(self.infer(args[0]), el, "in `push`")
+            e.res = ("push", b)
+            return "unit"
+        if n == "reverse" and not args:
+            e.res = ("reverse", local_recv())
+            return "unit"
+        if n == "copy_from_slice" and len(args) == 1:
+            unify(self.infer(args[0]), prt, "in `copy_from_slice`")
+            e.res = ("copyfrom", local_recv())
+            return "unit"
+        if n == "next" and not args:
+            e.res = ("next", local_recv())
+            return ("option", el)
+        if n in ("iter", "into_iter", "collect", "cloned", "copied", "to_vec", "clone", "as_slice", "iter_mut") \
+                and not args:
+            if n == "iter_mut":
+                raise Unsupported("`iter_mut`")
+            e.res = ("identm",)
+            return prt
+        if n in ("skip", "take") and len(args) == 1:
+            unify(self.infer(args[0]), "usize", f"in `{n}`")
+            e.res = ("vecm", n)
+            return prt
+        if n == "rev" and not args:
+            e.res = ("vecm", n)
+            return prt
+        if n in ("len", "count") and not args:
+            e.res = ("vecm", "len")
+            return "usize"
+        if n == "is_empty" and not args:
+            e.res = ("vecm", n)
+            return "bool"
+        if n in ("last", "first") and not args:
+            e.res = ("vecm", n)
+            return ("option", el)
+        if n == "sum" and not args:
+            self.need_int(el, "sum")
+            if e.turbofish:
+                unify(self.resolve_type(e.turbofish[0]), el, "in `sum::<T>`")
+            e.res = ("vecm", n)
+            return el
+        if n in ("min", "max") and not args:
+            self.need_int(el, n)
+            e.res = ("vecm", "it" + n)
+            return ("option", el)
+        if n == "contains" and len(args) == 1:
+            unify(self.infer(args[0]), el, "in `contains`")
+            e.res = ("vecm", n)
+            return "bool"
+        if n == "map" and len(args) == 1:
+            r = self.infer_closure(args[0], [el])
+            e.res = ("vecm", n)
+            return ("vec", r)
+        if n == "filter" and len(args) == 1:
+            unify(self.infer_closure(args[0], [el]), "bool", "closure of `filter`")
+            e.res = ("vecm", n)
+            return prt
+        if n == "filter_map" and len(args) == 1:
+            v = TVar()
+            unify(self.infer_closure(args[0], [el]), ("option", v), "closure of `filter_map`")
+            e.res = ("vecm", n)
+            return ("vec", v)
+        if n in ("any", "all") and len(args) == 1:
+            unify(self.infer_closure(args[0], [el]), "bool", f"closure of `{n}`")
+            e.res = ("vecm", n)
+            return "bool"
+        if n == "fold" and len(args) == 2:
+            at = self.infer(args[0])
+            unify(self.infer_closure(args[1], [at, el]), at, "closure of `fold`")
+            e.res = ("vecm", n)
+            return at
+        if n == "scan" and len(args) == 2:
+            at = self.infer(args[0])
+            v = TVar()
+            unify(self.infer_closure(args[1], [at, el]), ("option", v), "closure of `scan`")
+            e.res = ("vecm", n)
+            return ("vec", v)
+        if n == "zip" and len(args) == 1:
+            ot = prune(self.infer(args[0]))
+            if not (isinstance(ot, tuple) and ot[0] == "vec"):
+                raise Unsupported("`zip` with something that is not a list")
+            e.res = ("vecm", n)
+            return ("vec", ("tuple", (el, ot[1])))
+        if n == "enumerate" and not args:
+            e.res = ("vecm", n)
+            return ("vec", ("tuple", ("usize", el)))
+        raise Unsupported(f"Vec / iterator method `{n}` is not supported")
 
     # ---- after inference
     def finish(self):
@@ -1390,6 +2028,15 @@ class Checker:
                 r = r.e
             if r.kind == "lit" and isinstance(prune(r.ty), TVar) and r.value < 2 ** 31:
                 unify(r.ty, "u32")
+            elif r.kind == "bin" and isinstance(prune(r.ty), TVar) and small_literal_arith(r) is not None:
+                # arithmetic on unconstrained literals (i32 in Rust) whose every intermediate value is in
+                # [0, 2^31): the same value in u32
+                unify(r.ty, "u32")
+        for r in self.range_loops:
+            # `for _ in 0..4`: unconstrained literal bounds are i32 in Rust; same iteration count as u32
+            if isinstance(prune(r.ty[1][0]), TVar) and small_literal_arith(r.lo) is not None \
+                    and small_literal_arith(r.hi) is not None:
+                unify(r.ty[1][0], "u32")
         for l in self.lits:
             t = prune(l.ty)
             if isinstance(t, TVar):
@@ -1428,6 +2075,30 @@ class Checker:
             t = prune(b.ty)
             if contains_tvar(t):
                 raise Unsupported(f"type of `{b.name}` is not determined")
+
+
+def small_literal_arith(e):
+    """value of an expression built from integer literals with + - * only, if every intermediate value lies in
+    [0, 2^31) (so that i32 and u32 arithmetic agree); otherwise None"""
+    while e.kind == "paren":
+        e = e.e
+    if e.kind == "lit" and e.suffix is None:
+        return e.value if e.value < 2 ** 31 else None
+    if e.kind == "bin" and e.op in ("+", "-", "*"):
+        a, b = small_literal_arith(e.l), small_literal_arith(e.r)
+        if a is None or b is None:
+            return None
+        v = a + b if e.op == "+" else a - b if e.op == "-" else a * b
+        return v if 0 <= v < 2 ** 31 else None
+    return None
+
+
+def is_same_shape(a, b):
+    try:
+        unify(a, b)
+        return True
+    except Unsupported:
+        return False
 
 
 def contains_tvar(t):
@@ -1476,7 +2147,7 @@ def lean_ty(t):
         return "Option " + atom_ty(t[1])
     if t[0] == "vec":
         return "List " + atom_ty(t[1])
-    if t[0] == "enum":
+    if t[0] in ("enum", "struct"):
         return t[1]
     raise Unsupported(f"type {t}")
 
@@ -1498,6 +2169,8 @@ def default_val(t):
         return "none"
     if isinstance(t, tuple) and t[0] == "vec":
         return "[]"
+    if isinstance(t, tuple) and t[0] in ("struct", "enum"):
+        return "default"
     raise Unsupported("uninitialised `let` of this type")
 
 
@@ -1568,11 +2241,12 @@ def proj(text, i, n):
 
 
 class Ctx:
-    def __init__(self, mode, on_end, on_break, on_return):
+    def __init__(self, mode, on_end, on_break, on_return, on_continue=None):
         self.mode, self.on_end, self.on_break, self.on_return = mode, on_end, on_break, on_return
+        self.on_continue = on_continue or _no("`continue` outside a loop")
 
     def but(self, **kw):
-        c = Ctx(self.mode, self.on_end, self.on_break, self.on_return)
+        c = Ctx(self.mode, self.on_end, self.on_break, self.on_return, self.on_continue)
         c.__dict__.update(kw)
         return c
 
@@ -1597,7 +2271,7 @@ def walk(n, f):
 
 
 def has_ctrl(n):
-    """contains `return`, or a `break` that is not inside a nested `while`"""
+    """contains `return`, or a `break`/`continue` that is not inside a nested loop"""
     if n is None:
         return False
     found = [False]
@@ -1606,9 +2280,11 @@ def has_ctrl(n):
         if isinstance(x, N):
             if x.kind == "return":
                 found[0] = True
-            if x.kind == "break" and not inloop:
+            if x.kind in ("break", "continue") and not inloop:
                 found[0] = True
-            il = inloop or x.kind == "while"
+            if x.kind == "closure":
+                return
+            il = inloop or x.kind in ("while", "for")
             for k, v in x.__dict__.items():
                 if k in ("ty", "res", "binding", "to", "tyann"):
                     continue
@@ -1638,8 +2314,11 @@ def assigned_in(n):
     def f(x):
         if x.kind == "assign" and x.binding not in out:
             out.append(x.binding)
-        if x.kind == "mcall" and getattr(x, "res", None) and x.res[0] == "push" and x.res[1] not in out:
+        if x.kind == "mcall" and getattr(x, "res", None) and x.res[0] in ("push", "reverse", "next", "copyfrom") \
+                and x.res[1] not in out:
             out.append(x.res[1])
+        if x.kind == "mcall" and getattr(x, "res", None) and x.res[0] == "mutmethod" and x.res[2] not in out:
+            out.append(x.res[2])
     walk(n, f)
     return out
 
@@ -1664,6 +2343,8 @@ class Gen:
         self.loop_names = {}   # id(while node) -> (loopname, exitsname, S, caps)
         self.tmp = 0
         self.nloops = 0
+        self.nclosures = 0
+        self.pending = []      # side effects of `next()` inside the expression being translated
         self.used_names = set()
 
     # ---- names
@@ -1687,6 +2368,25 @@ class Gen:
             b.lean = cand
             used.add(cand)
         self.used_names = used | rust_names
+
+    def used(self, n):
+        """bindings read in `n`, including the environment / flattened-self parameters its callees need"""
+        out = used_in(n)
+
+        def f(x):
+            r = getattr(x, "res", None)
+            if r and r[0] in ("fn", "selfmethod", "method", "mutmethod"):
+                for er in r[1].env_recs:
+                    b = self.chk.env_used[er[2]]
+                    if b not in out:
+                        out.append(b)
+                if r[0] == "selfmethod":
+                    for fn_ in r[1].self_field_names:
+                        b = self.chk.self_fields[fn_]
+                        if b not in out:
+                            out.append(b)
+        walk(n, f)
+        return out
 
     def fresh(self, base):
         while True:
@@ -1785,6 +2485,10 @@ class Gen:
         if k == "vec":
             return "[" + ", ".join(self.E(x) for x in e.elems) + "]"
         if k == "range":
+            if getattr(e, "aslist", False):
+                lo, hi = self.E(e.lo), self.E(e.hi)
+                # `lo..=hi` never overflows in Rust; `hi + 1 - lo` is exact on Nat
+                return f"List.range' {P(lo)} ({hi} + 1 - {lo})" if e.inclusive else f"List.range' {P(lo)} ({hi} - {lo})"
             return f"({self.E(e.lo)}, {self.E(e.hi)})"
         if k == "field":
             r = e.res
@@ -1794,12 +2498,36 @@ class Gen:
                 return proj(self.E(e.e), r[1], r[2])
             if r[0] == "ident":
                 return self.E(e.e)
+            if r[0] == "sfield":
+                return f"{P(self.E(e.e))}.{r[1]}"
+        if k == "index":
+            l = P(self.E(e.e))
+            if e.slice is not None:
+                lo = self.E(e.slice.lo) if e.slice.lo is not None else None
+                hi = self.E(e.slice.hi) if e.slice.hi is not None else None
+                inner = l if hi is None else f"(List.take {P(hi)} {l})"
+                return inner if lo is None else f"List.drop {P(lo)} {inner}"
+            return f"idx {l} {P(self.E(e.i))}"
+        if k == "vecrep":
+            return f"List.replicate {P(self.E(e.n))} {P(self.E(e.elem))}"
+        if k == "structlit":
+            if e.sinfo.kind == "transparent":
+                return self.E(e.inits[0][1])
+            return "({ " + ", ".join(f"{lf} := {self.E(v)}" for lf, v in e.inits) + f" }} : {e.sinfo.name})"
+        if k == "try":
+            raise Unsupported("`?` is only supported directly as the initialiser of a `let` or as a statement")
+        if k == "closure":
+            raise Unsupported("closure outside an iterator method argument")
         if k == "call":
             r = e.res
             if r[0] in ("min", "max"):
                 return f"{r[0]} {P(self.E(e.args[0]))} {P(self.E(e.args[1]))}"
             if r[0] == "some":
                 return f"some {P(self.E(e.args[0]))}"
+            if r[0] == "emptyiter":
+                return "[]"
+            if r[0] == "from_le_bytes":
+                return f"ofLE {P(self.E(e.args[0]))}"
             if r[0] == "intconst":
                 return str(r[1])
             if r[0] == "widen":
@@ -1810,6 +2538,8 @@ class Gen:
                 return self.E(e.args[0])
             if r[0] == "fn":
                 return self.app(r[1], [], [self.E(a) for a in e.args])
+            if r[0] == "tuplector":
+                return "({ " + ", ".join(f"{lf} := {self.E(v)}" for lf, v in e.inits) + f" }} : {e.sinfo.name})"
         if k == "mcall":
             r = e.res
             if r[0] == "selfmethod":
@@ -1817,6 +2547,29 @@ class Gen:
                 return self.app(r[1], sa, [self.E(a) for a in e.args])
             if r[0] == "identm":
                 return self.E(e.recv)
+            if r[0] == "method":
+                return self.app(r[1], self.recv_fields(r[1], self.E(e.recv), r[2]), [self.E(a) for a in e.args])
+            if r[0] == "mutmethod":
+                raise Unsupported("`&mut self` method call inside an expression")
+            if r[0] == "optm":
+                o = P(self.E(e.recv))
+                if r[1] == "unwrap":
+                    return f"unwrapD {o}"
+                if r[1] == "unwrap_or":
+                    return f"Option.getD {o} {P(self.E(e.args[0]))}"
+                return f"Option.isSome {o}" if r[1] == "is_some" else f"Option.isNone {o}"
+            if r[0] == "next":
+                b = r[1]
+                if any(pb is b for pb, _ in self.pending):
+                    raise Unsupported("two `next()` calls on the same iterator in one expression")
+                self.pending.append((b, f"List.tail {b.lean}"))
+                return f"List.head? {b.lean}"
+            if r[0] in ("reverse", "copyfrom"):
+                raise Unsupported(f"`{e.name}` inside an expression")
+            if r[0] == "to_le_bytes":
+                return f"leBytes {r[1]} {P(self.E(e.recv))}"
+            if r[0] == "vecm":
+                return self.vecm(e, r[1])
             if r[0] == "builtin":
                 n = r[1]
                 w = self.bits(e.recv.ty)
@@ -1856,6 +2609,120 @@ class Gen:
         if k == "block":
             return self.EB(e)
         raise Unsupported(f"`{k}` inside an expression is not supported")
+
+    def recv_fields(self, rec, recv_text, recv_ty):
+        recv_ty = prune(recv_ty) if recv_ty is not None else None
+        if isinstance(recv_ty, tuple) and recv_ty[0] == "struct":
+            info = self.w.struct_info(recv_ty[1])
+            lf = {rf: l for rf, l, _ in info.fields}
+            return [f"{P(recv_text)}.{lf[f]}" for f in rec.self_field_names]
+        return [P(recv_text) for _ in rec.self_field_names]
+
+    def closure_inline(self, c):
+        while c.kind == "paren":
+            c = c.e
+        if has_return(c.body) or has_ctrl(c.body):
+            raise Unsupported("`return`/`break` inside a closure")
+        own = declared_in(c)
+        for b in assigned_in(c.body):
+            if b not in own:
+                raise Unsupported("closure that assigns a captured variable")
+        if self.O(c.body) is not None:
+            raise Unsupported("closure that can panic (its `_ok` condition would depend on the iteration)")
+        params = " ".join(P(self.pat(p)) for p, _ in c.params) or "_"
+        return f"fun {params} => {self.E(c.body)}"
+
+    def closure_state(self, c, lname_hint):
+        """closure `|acc, x| { stmts; Some(v) }` of `scan` whose body assigns `*acc`: an auxiliary definition
+        `acc → x → acc × Option β`"""
+        while c.kind == "paren":
+            c = c.e
+        if has_return(c.body) or has_ctrl(c.body):
+            raise Unsupported("`return`/`break` inside a closure")
+        own = declared_in(c)
+        accp = c.params[0][0]
+        if accp.kind != "pident":
+            raise Unsupported("state parameter of the `scan` closure is not an identifier")
+        acc = accp.binding
+        for b in assigned_in(c.body):
+            if b not in own:
+                raise Unsupported("closure that assigns a captured variable")
+        body = c.body if c.body.kind == "block" else N("block", items=[], tail=c.body)
+        octx = Ctx("ok", lambda: ["true"], _no("break"), lambda v: [self.O(v) or "true"])
+        if self.seq(body.items, 0, body.tail, octx) != ["true"]:
+            raise Unsupported("closure that can panic (its `_ok` condition would depend on the iteration)")
+        caps = [b for b in self.used(c.body) if b not in own]
+        order = {id(b): i for i, b in enumerate(self.chk.bindings)}
+        caps.sort(key=lambda b: (0 if b.kind == "env" else 1 if b.kind == "selffield" else 2, order.get(id(b), 0)))
+        self.nclosures += 1
+        name = f"{self.rec.lean}_closure{self.nclosures}"
+        vctx = Ctx("val", _no("closure body ends without a value"), _no("break"),
+                   lambda v: [f"({acc.lean}, {self.E(v)})"])
+        doc = self.seq(body.items, 0, body.tail, vctx)
+        capdecl = "".join(f" ({b.lean} : {lean_ty(b.ty)})" for b in caps)
+        xs = []
+        for pat, _ in c.params[1:]:
+            xs.append((P(self.pat(pat)), pat.ty))
+        decl = f" ({acc.lean} : {lean_ty(acc.ty)})" + "".join(f" ({n} : {lean_ty(t)})" for n, t in xs)
+        rty = prune(c.ty)
+        self.aux.append((f"/-- closure {self.nclosures} of `{self.rec.rust_name}` (state `{acc.name}` threaded through) -/",
+                         [f"def {name}{capdecl}{decl} : {atom_ty(acc.ty)} × {atom_ty(rty)} :="] + indent(doc)))
+        return name + "".join(" " + b.lean for b in caps)
+
+    def vecm(self, e, m):
+        l = P(self.E(e.recv))
+        a = e.args
+        if m == "skip":
+            return f"List.drop {P(self.E(a[0]))} {l}"
+        if m == "take":
+            return f"List.take {P(self.E(a[0]))} {l}"
+        if m == "rev":
+            return f"List.reverse {l}"
+        if m == "len":
+            return f"List.length {l}"
+        if m == "is_empty":
+            return f"List.isEmpty {l}"
+        if m == "last":
+            return f"List.getLast? {l}"
+        if m == "first":
+            return f"List.head? {l}"
+        if m == "sum":
+            w = self.bits(e.ty)
+            return f"List.foldl addW 0 {l}" if w == 64 else f"List.foldl (addN {w}) 0 {l}"
+        if m in ("itmin", "itmax"):
+            return f"List.{m[2:]}? {l}"
+        if m == "contains":
+            return f"List.contains {l} {P(self.E(a[0]))}"
+        if m == "map":
+            return f"List.map ({self.closure_inline(a[0])}) {l}"
+        if m == "filter":
+            return f"List.filter ({self.closure_inline(a[0])}) {l}"
+        if m == "filter_map":
+            return f"List.filterMap ({self.closure_inline(a[0])}) {l}"
+        if m in ("any", "all"):
+            return f"List.{m} {l} ({self.closure_inline(a[0])})"
+        if m == "fold":
+            return f"List.foldl ({self.closure_inline(a[1])}) {P(self.E(a[0]))} {l}"
+        if m == "scan":
+            c = a[1]
+            while c.kind == "paren":
+                c = c.e
+            own = declared_in(c)
+            if any(b in own for b in assigned_in(c.body)):
+                f = self.closure_state(c, "scan")
+            else:
+                accn = P(self.pat(c.params[0][0]))
+                f = f"fun {accn} {P(self.pat(c.params[1][0]))} => ({accn}, {self.closure_inline_body(c)})"
+            return f"scanOpt ({f}) {P(self.E(a[0]))} {l}"
+        if m == "zip":
+            return f"List.zip {l} {P(self.E(a[0]))}"
+        if m == "enumerate":
+            return f"enumerateL {l}"
+        raise Unsupported(f"iterator method {m}")
+
+    def closure_inline_body(self, c):
+        txt = self.closure_inline(c)
+        return P(txt.split("=>", 1)[1].strip())
 
     def cast(self, src, to):
         st = prune(src.ty)
@@ -1917,12 +2784,33 @@ class Gen:
             return None
         k = e.kind
         cs = []
-        if k in ("lit", "boollit", "path", "break"):
+        if k in ("lit", "boollit", "path", "break", "continue"):
             return None
         if k in ("paren", "un", "cast"):
             return self.O(e.e)
         if k == "field":
             return self.O(e.e) if e.res[0] != "local" else None
+        if k == "index":
+            l = P(self.E(e.e))
+            if e.slice is not None:
+                lo, hi = e.slice.lo, e.slice.hi
+                cs = [self.O(e.e), self.O(lo) if lo is not None else None, self.O(hi) if hi is not None else None]
+                if lo is not None and hi is not None:
+                    cs.append(f"decide ({self.E(lo)} ≤ {self.E(hi)})")
+                if hi is not None:
+                    cs.append(f"decide ({self.E(hi)} ≤ List.length {l})")
+                elif lo is not None:
+                    cs.append(f"decide ({self.E(lo)} ≤ List.length {l})")
+                return self.conj(cs)
+            return self.conj([self.O(e.e), self.O(e.i), f"decide ({self.E(e.i)} < List.length {l})"])
+        if k == "vecrep":
+            return self.conj([self.O(e.elem), self.O(e.n)])
+        if k == "structlit":
+            return self.conj([self.O(v) for _, v in e.inits])
+        if k == "closure":
+            raise Unsupported("closure outside an iterator method argument")
+        if k == "try":
+            raise Unsupported("`?` is only supported directly as the initialiser of a `let` or as a statement")
         if k == "bin":
             a, b = self.O(e.l), self.O(e.r)
             if e.op == "&&":
@@ -1947,10 +2835,21 @@ class Gen:
                 cs.append(self.okapp(e.res[1], [], [self.E(a) for a in e.args]))
             return self.conj(cs)
         if k == "mcall":
+            if e.res[0] == "vecm":
+                # closures are checked to be panic-free where they are translated (closure_inline / closure_state)
+                cs = [self.O(e.recv)] + [self.O(a) for a in e.args if a.kind != "closure"]
+                return self.conj(cs)
+            if e.res[0] == "next":
+                return None
             cs = [self.O(e.recv) if e.res[0] != "selfmethod" else None] + [self.O(a) for a in e.args]
             if e.res[0] == "selfmethod" and e.res[1].needs_ok:
                 sa = [self.chk.self_fields[f].lean for f in e.res[1].self_field_names]
                 cs.append(self.okapp(e.res[1], sa, [self.E(a) for a in e.args]))
+            if e.res[0] == "method" and e.res[1].needs_ok:
+                cs.append(self.okapp(e.res[1], self.recv_fields(e.res[1], self.E(e.recv), e.res[2]),
+                                     [self.E(a) for a in e.args]))
+            if e.res[0] == "optm" and e.res[1] == "unwrap":
+                cs.append(f"Option.isSome {P(self.E(e.recv))}")
             return self.conj(cs)
         if k == "if":
             c = self.O(e.c)
@@ -2023,11 +2922,82 @@ class Gen:
                 for b in reversed(bs):
                     r = let_doc(b.lean, [default_val(b.ty)], r) if ctx.mode == "val" or r != ["true"] else r
                 return r
+            init = it.init
+            while init.kind == "paren":
+                init = init.e
+            if init.kind == "match" and has_ctrl(init):
+                return self.let_match(init, it.pat, rest, ctx)
             if has_ctrl(it.init):
                 raise Unsupported("`return`/`break` inside the initialiser of a `let`")
-            parts = self.let_parts(it.pat, self.E(it.init))
-            return self.binds(parts, self.O(it.init), rest, ctx)
+            if init.kind == "try":
+                return self.try_stmt(init, it.pat, rest, ctx)
+            if init.kind == "mcall" and init.res[0] == "mutmethod":
+                return self.mutcall(init, it.pat, rest, ctx)
+            val, pend, ok = self.EO(it.init)
+            parts = self.let_parts(it.pat, val) + [(b.lean, v) for b, v in pend]
+            return self.binds(parts, ok, rest, ctx)
         return self.stmt(it.e, rest, ctx)
+
+    def let_match(self, m, pat, rest, ctx):
+        """`let pat = match s { p1 => value, p2 => return r, … };`: every arm either yields the value (and the
+        function continues) or leaves (`return` / `break` / `continue`)"""
+        sval, pend, os_ = self.EO(m.s)
+        if pend:
+            raise Unsupported("`next()` in the scrutinee of a `match`")
+        d = [f"match {sval} with"]
+        for p, body in m.arms:
+            b = body
+            while b.kind == "paren":
+                b = b.e
+            if b.kind == "block" and not b.items and b.tail is not None:
+                b = b.tail
+            if b.kind in ("return", "break", "continue"):
+                arm = self.stmt(b, rest, ctx)
+            elif has_ctrl(b):
+                raise Unsupported("`match` arm mixing a value and `return`")
+            else:
+                val, pend, ok = self.EO(b)
+                arm = self.binds(self.let_parts(pat, val) + [(pb.lean, v) for pb, v in pend], ok, rest, ctx)
+            d += [f"| {self.pat(p)} =>"] + indent(arm)
+        d = paren_doc(d)
+        return and_docs([os_] if os_ else None, d) if ctx.mode == "ok" else d
+
+    def EO(self, e):
+        """(value text, pending `next()` re-bindings, ok condition) of an expression evaluated as a statement"""
+        self.pending = []
+        val = self.E(e)
+        pend, self.pending = self.pending, []
+        ok = self.O(e)
+        self.pending = []
+        return val, pend, ok
+
+    def try_stmt(self, t, pat, rest, ctx):
+        """`let pat = e?;` in a function returning Option: `match e with | none => none | some v => …`"""
+        val, pend, ok = self.EO(t.e)
+        v = self.fresh("v")
+        parts = (self.let_parts(pat, v) if pat is not None else []) + [(b.lean, x) for b, x in pend]
+        r = rest()
+        for n, x in reversed(parts):
+            r = let_doc(n, [x], r)
+        if ctx.mode == "ok":
+            d = ["true"] if r == ["true"] else paren_doc([f"match {val} with", "| none => true", f"| some {v} =>"] + indent(r))
+            return and_docs([ok] if ok else None, d)
+        return paren_doc([f"match {val} with", "| none =>"] + indent(ctx.on_return(N("path", path=["None"], res=("none",)))) +
+                         [f"| some {v} =>"] + indent(r))
+
+    def mutcall(self, m, pat, rest, ctx):
+        """`recv.method(args)` where `method` takes `&mut self`: re-binds `recv` (and binds the result)"""
+        rec, b = m.res[1], m.res[2]
+        args = [self.E(a) for a in m.args]
+        call = self.app(rec, [b.lean], args)
+        ok = self.conj([self.O(a) for a in m.args] +
+                       ([self.okapp(rec, [b.lean], args)] if rec.needs_ok else []))
+        if prune(rec.ret) == "unit":
+            parts = [(b.lean, call)]
+        else:
+            t = self.fresh("t")
+            parts = [(t, call), (b.lean, f"{t}.1")] + (self.let_parts(pat, f"{t}.2") if pat is not None else [])
+        return self.binds(parts, ok, rest, ctx)
 
     def binds(self, parts, ok, rest, ctx):
         r = rest()
@@ -2056,32 +3026,63 @@ class Gen:
             return ctx.on_return(e.value)
         if k == "break":
             return ctx.on_break()
+        if k == "continue":
+            return ctx.on_continue()
         if k == "assign":
             b = e.binding
+            rhs, pend, ok = self.EO(e.value)
+            if e.tkind == "var":
+                cur, cty = b.lean, b.ty
+            elif e.tkind == "field":
+                cur, cty = self.E(e.tfield), e.tfield.ty
+            else:
+                cur, cty = self.E(e.tindex), e.tindex.ty
             if e.op == "=":
-                val = self.E(e.value)
+                val = rhs
             else:
                 op = e.op[:-1]
-                if prune(b.ty) == "bool":
-                    val = {"&": f"{b.lean} && {P(self.E(e.value))}", "|": f"{b.lean} || {P(self.E(e.value))}",
-                           "^": f"{b.lean} != {P(self.E(e.value))}"}[op]
+                if prune(cty) == "bool":
+                    val = {"&": f"{P(cur)} && {P(rhs)}", "|": f"{P(cur)} || {P(rhs)}",
+                           "^": f"{P(cur)} != {P(rhs)}"}[op]
                 else:
-                    val = self.arith(op, self.bits(b.ty), b.lean, self.E(e.value))
-            ok = self.O(e.value)
+                    val = self.arith(op, self.bits(cty), cur, rhs)
             if e.op in ("/=", "%="):
-                ok = self.conj([ok, f"{P(self.E(e.value))} != 0"])
-            return self.binds([(b.lean, val)], ok, rest, ctx)
+                ok = self.conj([ok, f"{P(rhs)} != 0"])
+            if e.tkind == "field":
+                if e.tfield.res[0] != "sfield":
+                    raise Unsupported("assignment to a field of a transparent struct")
+                val = f"{{ {b.lean} with {e.tfield.res[1]} := {val} }}"
+            elif e.tkind == "index":
+                ix = self.E(e.tindex.i)
+                ok = self.conj([self.O(e.tindex.i), ok, f"decide ({ix} < List.length {b.lean})"])
+                val = f"List.set {b.lean} {P(ix)} {P(val)}"
+            return self.binds([(b.lean, val)] + [(pb.lean, v) for pb, v in pend], ok, rest, ctx)
         if k == "mcall" and e.res[0] == "push":
             b = e.res[1]
             return self.binds([(b.lean, f"{b.lean} ++ [{self.E(e.args[0])}]")], self.O(e.args[0]), rest, ctx)
+        if k == "mcall" and e.res[0] == "reverse":
+            b = e.res[1]
+            return self.binds([(b.lean, f"List.reverse {b.lean}")], None, rest, ctx)
+        if k == "mcall" and e.res[0] == "copyfrom":
+            # `dst.copy_from_slice(src)` panics unless the lengths agree
+            b = e.res[1]
+            src, pend, ok = self.EO(e.args[0])
+            ok = self.conj([ok, f"List.length {b.lean} == List.length {P(src)}"])
+            return self.binds([(b.lean, src)] + [(pb.lean, v) for pb, v in pend], ok, rest, ctx)
+        if k == "mcall" and e.res[0] == "mutmethod":
+            return self.mutcall(e, None, rest, ctx)
+        if k == "try":
+            return self.try_stmt(e, None, rest, ctx)
         if k == "if":
             return self.if_stmt(e, rest, ctx)
         if k == "while":
             return self.while_stmt(e, rest, ctx)
+        if k == "for":
+            return self.for_stmt(e, rest, ctx)
+        if k == "match" and (has_ctrl(e) or assigned_in(e)):
+            return self.match_stmt(e, rest, ctx)
         if k == "block":
             return self.seq(self.as_stmts(e), 0, None, ctx.but(on_end=rest))
-        if k == "match" and (has_ctrl(e) or assigned_in(e)):
-            raise Unsupported("`match` statement with side effects")
         # pure expression statement
         if has_ctrl(e) or assigned_in(e):
             raise Unsupported("expression statement with side effects")
@@ -2089,6 +3090,126 @@ class Gen:
             o = self.O(e)
             return and_docs([o] if o else None, rest())
         return rest()
+
+    def arm_stmts(self, body):
+        if body.kind == "block":
+            return self.as_stmts(body)
+        return [N("expr", e=body, semi=True)]
+
+    def match_stmt(self, e, rest, ctx):
+        sval, pend, os_ = self.EO(e.s)
+        if pend:
+            raise Unsupported("`next()` in the scrutinee of a `match` statement")
+        arms = [(self.pat(p), self.arm_stmts(b), b) for p, b in e.arms]
+        if any(has_ctrl(b) for _, _, b in arms):
+            d = [f"match {sval} with"]
+            for p, st, _ in arms:
+                d += [f"| {p} =>"] + indent(self.seq(st, 0, None, ctx.but(on_end=rest)))
+            d = paren_doc(d)
+            return and_docs([os_] if os_ else None, d) if ctx.mode == "ok" else d
+        M = self.outer_assigned([b for _, _, b in arms])
+        vctx = Ctx("val", lambda: [self.state_tuple(M)], _no("break"), _no("return"))
+
+        def join(rest_doc):
+            d = [f"match {sval} with"]
+            for p, st, _ in arms:
+                d += [f"| {p} =>"] + indent(self.seq(st, 0, None, vctx))
+            return self.unpack(M, d, rest_doc)
+        if ctx.mode == "val":
+            return join(rest()) if M else rest()
+        octx = Ctx("ok", lambda: ["true"], _no("break"), _no("return"))
+        oarms = [(p, self.seq(st, 0, None, octx)) for p, st, _ in arms]
+        if all(d == ["true"] for _, d in oarms):
+            od = ["true"]
+        else:
+            od = [f"match {sval} with"]
+            for p, d in oarms:
+                od += [f"| {p} =>"] + indent(d)
+            od = paren_doc(od)
+        r = rest()
+        joined = r if (r == ["true"] or not M) else join(r)
+        return and_docs([os_] if os_ else None, od, joined)
+
+    def for_stmt(self, e, rest, ctx):
+        if has_return(e.body):
+            raise Unsupported("`return` inside a `for` loop")
+        key = id(e)
+        it = e.itn
+        if e.over == "range":
+            lo, hi = self.E(it.lo), self.E(it.hi)
+            lst = f"List.range' {P(lo)} ({hi} - {lo})"
+            olst = self.conj([self.O(it.lo), self.O(it.hi)])
+            elty = it.ty[1][0]
+        else:
+            lst, pend, olst = self.EO(it)
+            if pend:
+                raise Unsupported("`next()` in the iterated expression of a `for` loop")
+            elty = prune(it.ty)[1]
+        if key not in self.loop_names:
+            S = self.outer_assigned([e.body])
+            if not S:
+                raise Unsupported("`for` loop that assigns no outer variable")
+            inner = declared_in(e.body) + declared_in(e.pat)
+            caps = [b for b in self.used(e.body) if b not in S and b not in inner]
+            seen, caps2 = [], []
+            for b in caps:
+                if b not in seen:
+                    seen.append(b); caps2.append(b)
+            order = {id(b): i for i, b in enumerate(self.chk.bindings)}
+            caps2.sort(key=lambda b: (0 if b.kind == "env" else 1 if b.kind == "selffield" else 2, order.get(id(b), 0)))
+            self.nloops += 1
+            idx = self.nloops
+            lname = f"{self.rec.lean}_loop{idx}"
+            xname = f"{self.rec.lean}_loop{idx}_ok"
+            restv = self.fresh("rest")
+            capdecl = "".join(f" ({b.lean} : {lean_ty(b.ty)})" for b in caps2)
+            capargs = "".join(" " + b.lean for b in caps2)
+            sty = " → ".join(atom_ty(b.ty) for b in S)
+            rty = lean_ty(("tuple", tuple(b.ty for b in S))) if len(S) > 1 else lean_ty(S[0].ty)
+            svars = ", ".join(b.lean for b in S)
+            sargs = " ".join(b.lean for b in S)
+            st = self.state_tuple(S)
+            if e.pat.kind == "pident":
+                hd, plets = e.pat.binding.lean, []
+            elif e.pat.kind == "pwild":
+                hd, plets = "_", []
+            else:
+                hd = self.fresh("x")
+                plets = self.let_parts(e.pat, hd)
+
+            def wrap(doc):
+                for n, v in reversed(plets):
+                    doc = let_doc(n, [v], doc)
+                return doc
+            again = lambda: [f"{lname}{capargs} {restv} {sargs}"]
+            vctx = Ctx("val", again, lambda: [st], _no("`return` in loop"), again)
+            body = wrap(self.seq(self.as_stmts(e.body), 0, None, vctx))
+            d = [f"def {lname}{capdecl} : List {atom_ty(elty)} → {sty} → {rty}",
+                 f"  | [], {svars} => {st}",
+                 f"  | {hd} :: {restv}, {svars} =>"] + indent(body, 4)
+            probe = Ctx("ok", lambda: ["true"], lambda: ["true"], _no("`return` in loop"), lambda: ["true"])
+            can_panic = self.seq(self.as_stmts(e.body), 0, None, probe) != ["true"]
+            self.aux.append((f"/-- `for` loop {idx} of `{self.rec.rust_name}` (state: {', '.join(b.name for b in S)}), "
+                             f"structural recursion over the iterated list -/", d))
+            if can_panic:
+                oagain = lambda: [f"{xname}{capargs} {restv} {sargs}"]
+                octx = Ctx("ok", oagain, lambda: ["true"], _no("`return` in loop"), oagain)
+                obody = wrap(self.seq(self.as_stmts(e.body), 0, None, octx))
+                x = [f"def {xname}{capdecl} : List {atom_ty(elty)} → {sty} → Bool",
+                     f"  | [], {svars} => true",
+                     f"  | {hd} :: {restv}, {svars} =>"] + indent(obody, 4)
+                self.aux.append((f"/-- nothing in `for` loop {idx} of `{self.rec.rust_name}` panics -/", x))
+            self.loop_names[key] = (lname, xname, S, caps2, idx, can_panic)
+        lname, xname, S, caps2, idx, can_panic = self.loop_names[key]
+        capargs = "".join(" " + b.lean for b in caps2)
+        sargs = " ".join(b.lean for b in S)
+        call = [f"{lname}{capargs} {P(lst)} {sargs}"]
+        if ctx.mode == "val":
+            return self.unpack(S, call, rest())
+        r = rest()
+        return and_docs([olst] if olst else None,
+                        [f"{xname}{capargs} {P(lst)} {sargs}"] if can_panic else None,
+                        r if r == ["true"] else self.unpack(S, call, r))
 
     def state_tuple(self, S):
         if len(S) == 1:
@@ -2154,7 +3275,7 @@ class Gen:
             if not S:
                 raise Unsupported("`while` loop that assigns no outer variable")
             inner = declared_in(e.body)
-            caps = [b for b in used_in(e.c) + used_in(e.body) if b not in S and b not in inner]
+            caps = [b for b in self.used(e.c) + self.used(e.body) if b not in S and b not in inner]
             seen, caps2 = [], []
             for b in caps:
                 if b not in seen:
@@ -2177,12 +3298,14 @@ class Gen:
             st = self.state_tuple(S)
             c = self.E(e.c)
             oc = self.O(e.c)
-            vctx = Ctx("val", lambda: [f"{lname}{capargs} {fuelv} {sargs}"], lambda: [st], _no("`return` in loop"))
+            again = lambda: [f"{lname}{capargs} {fuelv} {sargs}"]
+            vctx = Ctx("val", again, lambda: [st], _no("`return` in loop"), again)
             body = self.seq(self.as_stmts(e.body), 0, None, vctx)
             d = [f"def {lname}{capdecl} : Nat → {sty} → {rty}",
                  f"  | 0, {svars} => {st}",
                  f"  | {fuelv}+1, {svars} =>"] + indent(ite_doc(c, body, [st]), 4)
-            octx = Ctx("ok", lambda: [f"{xname}{capargs} {fuelv} {sargs}"], lambda: ["true"], _no("`return` in loop"))
+            oagain = lambda: [f"{xname}{capargs} {fuelv} {sargs}"]
+            octx = Ctx("ok", oagain, lambda: ["true"], _no("`return` in loop"), oagain)
             obody = self.seq(self.as_stmts(e.body), 0, None, octx)
             x = [f"def {xname}{capdecl} : Nat → {sty} → Bool",
                  f"  | 0, {svars} =>"] + indent(and_docs([oc] if oc else None, [f"!{P(c)}"]), 4) + \
@@ -2228,7 +3351,9 @@ class Gen:
                 d += [f"| {p} =>"] + indent(doc)
             d = paren_doc(d)
             return and_docs([os_] if os_ else None, d) if ctx.mode == "ok" else d
-        if k in ("while", "assign") or (k == "mcall" and t.res[0] == "push"):
+        if k in ("while", "assign", "for", "continue", "break") or \
+                (k == "mcall" and t.res[0] in ("push", "reverse", "mutmethod", "copyfrom")) or \
+                (k == "match" and getattr(t, "iflet", False) and prune(t.ty) == "unit"):
             return self.stmt(t, ctx.on_end, ctx)
         return ctx.on_return(t)
 
@@ -2238,10 +3363,13 @@ class Gen:
 # =============================================================================================
 
 class Entry:
-    def __init__(self, file, impl, fn, lean, out, fuel=None, note=""):
+    def __init__(self, file, impl, fn, lean, out, fuel=None, note="", abstract=None):
         self.file, self.impl, self.fn, self.lean, self.out = file, impl, fn, lean, out
         self.fuel = fuel or {}
         self.note = note
+        # [(rust expression text, parameter name, rust type)]: every occurrence of the expression (token-wise)
+        # in the body is replaced by a fresh trailing parameter (for calls into untranslatable code, e.g. a hash)
+        self.abstract = abstract or []
         self.key = (file, impl, fn)
 
     @property
@@ -2255,6 +3383,12 @@ GLOB = "core/src/global.rs"
 SEG = "core/src/core/pmmr/segment.rs"
 TXS = "core/src/core/transaction.rs"
 BLK = "core/src/core/block.rs"
+POWT = "core/src/pow/types.rs"
+SIP = "core/src/pow/siphash.rs"
+POWC = "core/src/pow/common.rs"
+LIBTX = "core/src/libtx/mod.rs"
+BMACC = "chain/src/txhashset/bitmap_accumulator.rs"
+P2PMSG = "p2p/src/msg.rs"
 
 # (rust file, impl type or None, fn name, lean name, output module, fuel per loop)
 # fuel: every listed loop shifts a u64 by one bit per iteration and stops when it is zero (<= 64
@@ -2275,6 +3409,9 @@ WHITELIST = [
     Entry(PMMR, None, "bintree_rightmost", "bintree_rightmost", "FnsPmmr"),
     Entry(PMMR, None, "bintree_leftmost", "bintree_leftmost", "FnsPmmr"),
     Entry(PMMR, None, "bintree_range", "bintree_range", "FnsPmmr"),
+    Entry(PMMR, None, "peaks", "peaks", "FnsPmmr"),
+    Entry(PMMR, None, "bintree_leaf_pos_iter", "bintree_leaf_pos_iter", "FnsPmmr"),
+    Entry(PMMR, None, "bintree_pos_iter", "bintree_pos_iter", "FnsPmmr"),
     # consensus.rs / global.rs
     Entry(CONS, None, "reward", "reward", "FnsCons"),
     Entry(CONS, None, "secondary_pow_ratio", "secondary_pow_ratio", "FnsCons"),
@@ -2290,6 +3427,26 @@ WHITELIST = [
     Entry(GLOB, None, "min_wtema_graph_weight", "min_wtema_graph_weight", "FnsCons"),
     Entry(GLOB, None, "max_block_weight", "max_block_weight", "FnsCons"),
     Entry(GLOB, None, "max_tx_weight", "max_tx_weight", "FnsCons"),
+    Entry(GLOB, None, "cut_through_horizon", "cut_through_horizon", "FnsCons"),
+    Entry(GLOB, None, "state_sync_threshold", "state_sync_threshold", "FnsCons"),
+    Entry(GLOB, None, "txhashset_archive_interval", "txhashset_archive_interval", "FnsCons"),
+    # difficulty (pow/types.rs `Difficulty` is a transparent one-field struct; consensus.rs; global.rs)
+    Entry(POWT, "Difficulty", "zero", "Difficulty_zero", "FnsCons"),
+    Entry(POWT, "Difficulty", "min_dma", "Difficulty_min_dma", "FnsCons"),
+    Entry(POWT, "Difficulty", "min_wtema", "Difficulty_min_wtema", "FnsCons"),
+    Entry(POWT, "Difficulty", "unit", "Difficulty_unit", "FnsCons"),
+    Entry(POWT, "Difficulty", "from_num", "Difficulty_from_num", "FnsCons"),
+    Entry(POWT, "Difficulty", "to_num", "Difficulty_to_num", "FnsCons"),
+    Entry(POWT, "Proof", "scaled_difficulty", "Proof_scaled_difficulty", "FnsCons",
+          abstract=[("self.hash().to_u64()", "hash64", "u64")]),
+    Entry(CONS, "HeaderDifficultyInfo", "from_ts_diff", "HeaderDifficultyInfo_from_ts_diff", "FnsCons"),
+    Entry(CONS, "HeaderDifficultyInfo", "from_diff_scaling", "HeaderDifficultyInfo_from_diff_scaling", "FnsCons"),
+    Entry(CONS, None, "ar_count", "ar_count", "FnsCons"),
+    Entry(CONS, None, "secondary_pow_scaling", "secondary_pow_scaling", "FnsCons"),
+    Entry(GLOB, None, "difficulty_data_to_vector", "difficulty_data_to_vector", "FnsCons"),
+    Entry(CONS, None, "next_dma_difficulty", "next_dma_difficulty", "FnsCons"),
+    Entry(CONS, None, "next_wtema_difficulty", "next_wtema_difficulty", "FnsCons"),
+    Entry(CONS, None, "next_difficulty", "next_difficulty", "FnsCons"),
     # segment.rs
     Entry(SEG, "SegmentIdentifier", "count_segments_required", "SegmentIdentifier_count_segments_required", "FnsSeg"),
     Entry(SEG, "SegmentIdentifier", "segment_capacity", "SegmentIdentifier_segment_capacity", "FnsSeg"),
@@ -2297,6 +3454,7 @@ WHITELIST = [
     Entry(SEG, "SegmentIdentifier", "segment_unpruned_size", "SegmentIdentifier_segment_unpruned_size", "FnsSeg"),
     Entry(SEG, "SegmentIdentifier", "full_segment", "SegmentIdentifier_full_segment", "FnsSeg"),
     Entry(SEG, "SegmentIdentifier", "segment_pos_range", "SegmentIdentifier_segment_pos_range", "FnsSeg"),
+    Entry(SEG, "SegmentIdentifier", "pmmr_size", "SegmentIdentifier_pmmr_size", "FnsSeg"),
     # transaction.rs
     Entry(TXS, "FeeFields", "fee_shift", "FeeFields_fee_shift", "FnsTx"),
     Entry(TXS, "FeeFields", "fee", "FeeFields_fee", "FnsTx"),
@@ -2304,11 +3462,31 @@ WHITELIST = [
     Entry(TXS, "FeeFields", "as_opt", "FeeFields_as_opt", "FnsTx"),
     Entry(TXS, "TransactionBody", "weight_by_iok", "TransactionBody_weight_by_iok", "FnsTx"),
     Entry(TXS, "Transaction", "weight_by_iok", "Transaction_weight_by_iok", "FnsTx"),
+    Entry(TXS, "Transaction", "old_weight_by_iok", "Transaction_old_weight_by_iok", "FnsTx"),
+    Entry(LIBTX, None, "tx_fee", "tx_fee", "FnsTx"),
+    # pow/siphash.rs
+    Entry(SIP, "SipHash24", "new", "SipHash24_new", "FnsPow"),
+    Entry(SIP, "SipHash24", "round", "SipHash24_round", "FnsPow"),
+    Entry(SIP, "SipHash24", "hash", "SipHash24_hash", "FnsPow"),
+    Entry(SIP, "SipHash24", "digest", "SipHash24_digest", "FnsPow"),
+    Entry(SIP, None, "siphash24", "siphash24", "FnsPow"),
+    Entry(SIP, None, "siphash_block", "siphash_block", "FnsPow"),
+    Entry(POWC, "CuckooParams", "sipnode", "CuckooParams_sipnode", "FnsPow"),
+    # pow/types.rs: the read side of the nonce packing
+    Entry(GLOB, None, "proofsize", "proofsize", "FnsCons"),
+    Entry(POWT, "Proof", "pack_len", "Proof_pack_len", "FnsPow"),
+    Entry(POWT, None, "extract_bits", "extract_bits", "FnsPow"),
+    Entry(POWT, None, "read_number", "read_number", "FnsPow"),
+    # chain/src/txhashset/bitmap_accumulator.rs
+    Entry(BMACC, "BitmapAccumulator", "chunk_start_idx", "BitmapAccumulator_chunk_start_idx", "FnsBitmap"),
+    Entry(BMACC, "BitmapAccumulator", "chunk_idx", "BitmapAccumulator_chunk_idx", "FnsBitmap"),
+    # p2p/src/msg.rs `max_msg_size` / `enum Type`: regenerated by tools/gen_msg.py (Gen/Msg.lean), not here
 ]
 
-OUT_OF_FILE = {PMMR: "FnsPmmr", CONS: "FnsCons", GLOB: "FnsCons", SEG: "FnsSeg", TXS: "FnsTx", BLK: "FnsCons"}
-OUTS = ["FnsPmmr", "FnsCons", "FnsSeg", "FnsTx"]
-TYPE_FILES = [PMMR, CONS, GLOB, SEG, TXS, BLK]
+OUT_OF_FILE = {PMMR: "FnsPmmr", CONS: "FnsCons", GLOB: "FnsCons", SEG: "FnsSeg", TXS: "FnsTx", BLK: "FnsCons",
+               POWT: "FnsCons", SIP: "FnsPow", POWC: "FnsPow", LIBTX: "FnsTx", BMACC: "FnsBitmap", P2PMSG: "FnsMsg"}
+OUTS = ["FnsPmmr", "FnsCons", "FnsSeg", "FnsTx", "FnsPow", "FnsBitmap"]
+TYPE_FILES = [PMMR, CONS, GLOB, SEG, TXS, BLK, POWT, SIP, POWC, LIBTX, BMACC, P2PMSG]
 
 
 def consts_in_consts_lean():
@@ -2321,6 +3499,10 @@ def consts_in_consts_lean():
 
 
 class ConstRec:
+    pass
+
+
+class SInfo:
     pass
 
 
@@ -2343,6 +3525,8 @@ class World:
         self.consts = {}
         self.enums = {}
         self.structs = {}
+        self.sinfos = {}
+        self.macro_tabs = {}
         self.gen_consts = consts_in_consts_lean()
         self.report = []       # (entry, status, detail)
         for e in self.whitelist:
@@ -2381,7 +3565,7 @@ class World:
         return os.path.basename(os.path.dirname(rel)) if b == "mod" else b
 
     def note_dep(self, out):
-        if self.cur_out and self.cur_out[-1] != out:
+        if out and self.cur_out and self.cur_out[-1] != out:
             self.deps[self.cur_out[-1]].add(out)
 
     # ---- types
@@ -2402,12 +3586,100 @@ class World:
         return self.structs[name]
 
     def newtype_of(self, name):
-        if not self.find_items("struct", name):
+        """the field type of a one-field struct (tuple or named): such structs are transparent"""
+        if not name or not self.find_items("struct", name):
             return None
         st = self.struct(name)
         if st[0] == "tuple" and len(st[1]) == 1:
             return st[1][0]
+        if st[0] == "named" and len(st[1]) == 1:
+            return st[1][0][1]
         return None
+
+    def is_transparent(self, name):
+        try:
+            return self.newtype_of(name) is not None
+        except Unsupported:
+            return False
+
+    def transparent_with_field(self, fname):
+        out = []
+        for rel in self.type_files:
+            for it in self.items(rel, soft=True):
+                if it.kind == "struct" and not it.test:
+                    try:
+                        st = self.struct(it.name)
+                    except Unsupported:
+                        continue
+                    if st[0] == "named" and len(st[1]) == 1 and st[1][0][0] == fname:
+                        try:
+                            out.append((it.name, Checker(self, None, None).resolve_type(st[1][0][1])))
+                        except Unsupported:
+                            pass
+        return out
+
+    def macros(self, rel):
+        if rel not in self.macro_tabs:
+            tab = {}
+            for it in self.items(rel, soft=True):
+                if it.kind == "macro" and not it.test:
+                    try:
+                        tab[it.name] = parse_macro(it)
+                    except Unsupported:
+                        pass
+            self.macro_tabs[rel] = tab
+        return self.macro_tabs[rel]
+
+    def struct_info(self, name):
+        """SInfo: kind transparent|record, fields [(rust name, lean name, type or None when untranslatable)]"""
+        if name in self.sinfos:
+            si = self.sinfos[name]
+            if si.out:
+                self.note_dep(si.out)
+            return si
+        f = self.find_items("struct", name)
+        if len(f) != 1:
+            raise Unsupported(f"struct `{name}`: {len(f)} definitions found")
+        rel = f[0][0]
+        st = self.struct(name)
+        si = SInfo()
+        si.name = name
+        if st[0] == "unit":
+            raise Unsupported(f"unit struct `{name}`")
+        raw = [(str(i), f"f{i}", t) for i, t in enumerate(st[1])] if st[0] == "tuple" else \
+            [(fn_, ("«" + fn_ + "»") if fn_ in LEAN_KEYWORDS else fn_, t) for fn_, t in st[1]]
+        si.fields = []
+        for rf, lf, syn in raw:
+            try:
+                ty = Checker(self, rel, None).resolve_type(syn)
+            except Unsupported:
+                ty = None
+            si.fields.append((rf, lf, ty))
+        if len(raw) == 1:
+            si.kind, si.out = "transparent", None
+            if si.fields[0][2] is None:
+                raise Unsupported(f"struct `{name}` wraps an unsupported type")
+            self.sinfos[name] = si
+            return si
+        si.kind = "record"
+        si.out = self.out_of_file.get(rel)
+        if si.out is None:
+            raise Unsupported(f"struct `{name}` comes from a file without an output module")
+        self.sinfos[name] = si
+        kept = [(lf, ty) for _, lf, ty in si.fields if ty is not None]
+        dropped = [rf for rf, _, ty in si.fields if ty is None]
+        if not kept:
+            raise Unsupported(f"struct `{name}` has no translatable field")
+        self.cur_out.append(si.out)
+        try:
+            flines = [f"  {lf} : {lean_ty(ty)}" for lf, ty in kept]
+        finally:
+            self.cur_out.pop()
+        doc = f"/-- `struct {name}` ({rel})" + \
+            (f"; fields of untranslated type omitted: {', '.join(dropped)}" if dropped else "") + " -/"
+        self.chunks[si.out].append([doc, f"structure {name} where"] + flines + ["  deriving DecidableEq, Repr, Inhabited"])
+        self.note_dep(si.out)
+        return si
 
     def enum(self, name):
         if name not in self.enums:
@@ -2422,7 +3694,7 @@ class World:
             self.enums[name] = (vs, out)
             self.chunks[out].append(
                 [f"/-- `enum {name}` ({rel}) -/", f"inductive {name}"] + [f"  | {v}" for v in vs] +
-                ["  deriving DecidableEq, Repr"])
+                ["  deriving DecidableEq, Repr, Inhabited"])
         self.note_dep(self.enums[name][1])
         return self.enums[name]
 
@@ -2440,10 +3712,10 @@ class World:
     def named_type(self, n):
         nt = self.newtype_of(n)
         if nt is not None:
-            t = Checker(self, None, None).resolve_type(nt)
-            if not is_int(t):
-                raise Unsupported(f"newtype `{n}` does not wrap an integer")
-            return t
+            return Checker(self, None, None).resolve_type(nt)
+        if self.find_items("struct", n):
+            self.struct_info(n)
+            return ("struct", n)
         if self.enum(n) is not None:
             return ("enum", n)
         raise Unsupported(f"type `{n}` is not supported")
@@ -2525,19 +3797,45 @@ class World:
 
     def _translate(self, entry):
         item = self.locate(entry)
-        ast = parse_fn(item)
+        extra = []
+        for text, pname, pty in entry.abstract:
+            pat = [t.text for t in lex(text)]
+            toks = list(item.toks[item.lo:item.hi])
+            out, k, hits = [], 0, 0
+            while k < len(toks):
+                if [t.text for t in toks[k:k + len(pat)]] == pat:
+                    out.append(Tok("ident", pname, toks[k].pos)); k += len(pat); hits += 1
+                else:
+                    out.append(toks[k]); k += 1
+            if not hits:
+                raise Unsupported(f"abstracted expression `{text}` does not occur in the body")
+            item = Item(item.kind, item.name, item.container, 0, len(out), out, item.test)
+            extra.append((pname, pty, text))
+        ast = parse_fn(item, self.macros(entry.file))
+        for pname, pty, text in extra:
+            ast.params.append(("param", pname, False, ("name", [pty], [])))
         chk = Checker(self, entry.file, entry.impl)
+        chk.typarams = ast.typarams
         rec = FnRec()
         rec.entry, rec.lean, rec.out, rec.rust_name = entry, entry.lean, entry.out, entry.rust_name
-        rec.has_self = any(p[0] == "self" for p in ast.params)
-        if ast.ret is None:
+        rec.has_self = any(p[0] in ("self", "mutself") for p in ast.params)
+        rec.self_mode = "whole" if any(p[0] == "mutself" for p in ast.params) else "flat" if rec.has_self else None
+        if ast.ret is None and rec.self_mode != "whole":
             raise Unsupported("function without a return value")
-        chk.ret = chk.resolve_type(ast.ret)
+        chk.ret = chk.resolve_type(ast.ret) if ast.ret is not None else "unit"
         rec.ret = chk.ret
         rec.params = []
+        selfb = None
+        if rec.self_mode == "whole":
+            if entry.impl is None or self.is_transparent(entry.impl):
+                raise Unsupported("`&mut self` on a one-field struct")
+            self.struct_info(entry.impl)
+            selfb = chk.declare("self", ("struct", entry.impl), True, "param")
         for kind, name, mut, ty in ast.params:
             if kind == "param":
-                rec.params.append(chk.declare(name, chk.resolve_type(ty), mut, "param"))
+                b = chk.declare(name, chk.resolve_type(ty), mut, "param")
+                b.byref = ty[0] == "ref"
+                rec.params.append(b)
         bt = chk.infer(ast.body)
         if ast.body.tail is not None:
             unify(bt, chk.ret, "between body and declared return type")
@@ -2555,19 +3853,31 @@ class World:
                 raise Unsupported("`self` used in a function without a self parameter")
             rec.self_field_names = []
         envb = [chk.env_used[er[2]] for er in rec.env_recs]
-        selfb = [chk.self_fields[f] for f in rec.self_field_names]
+        selfbs = [chk.self_fields[f] for f in rec.self_field_names]
         g = Gen(self, rec, chk, entry.fuel)
-        reserved = {entry.lean} | {c.lean for c in chk.callees} | {c.ref for c in chk.consts} | set(self.enums)
-        g.assign_names(envb + selfb + chk.bindings, reserved)
+        reserved = {entry.lean} | {c.lean for c in chk.callees} | {c.ref for c in chk.consts} | set(self.enums) | \
+            set(self.sinfos)
+        g.assign_names(envb + selfbs + chk.bindings, reserved)
         rec.needs_ok = False
-        vctx = Ctx("val", _no("function body ends without a value"), _no("`break` outside a loop"),
-                   lambda v: [g.E(v)] if v is not None else _no("`return` without a value")())
+        lean_ret = rec.ret
+        if rec.self_mode == "whole":
+            unit = prune(rec.ret) == "unit"
+            lean_ret = selfb.ty if unit else ("tuple", (selfb.ty, rec.ret))
+            fin = (lambda v: [selfb.lean]) if unit else \
+                (lambda v: [f"({selfb.lean}, {g.E(v)})"] if v is not None else _no("`return` without a value")())
+            vctx = Ctx("val", (lambda: [selfb.lean]) if unit else _no("function body ends without a value"),
+                       _no("`break` outside a loop"), fin)
+        else:
+            vctx = Ctx("val", _no("function body ends without a value"), _no("`break` outside a loop"),
+                       lambda v: [g.E(v)] if v is not None else _no("`return` without a value")())
         body = g.seq(ast.body.items, 0, ast.body.tail, vctx)
         octx = Ctx("ok", lambda: ["true"], _no("`break` outside a loop"),
-                   lambda v: [g.O(v) or "true"])
+                   lambda v: [(g.O(v) if v is not None else None) or "true"])
         okdoc = g.seq(ast.body.items, 0, ast.body.tail, octx)
+        if g.pending:
+            raise Unsupported("`next()` in a position where its effect on the iterator cannot be sequenced")
         rec.needs_ok = okdoc != ["true"]
-        plist = envb + selfb + rec.params
+        plist = envb + selfbs + ([selfb] if selfb is not None else []) + rec.params
         decl = "".join(f" ({b.lean} : {lean_ty(b.ty)})" for b in plist)
         rec.param_doc = ", ".join(f"{b.lean} : {show_ty(b.ty)}" +
                                   (" [env]" if b.kind == "env" else " [self]" if b.kind == "selffield" else "")
@@ -2577,7 +3887,7 @@ class World:
             lines += [doc] + d + [""]
         where = f"{entry.file}"
         lines += [f"/-- `{entry.rust_name}` ({where}); parameters: {rec.param_doc or 'none'}; returns {show_ty(rec.ret)} -/",
-                  f"def {entry.lean}{decl} : {lean_ty(rec.ret)} :="] + indent(body)
+                  f"def {entry.lean}{decl} : {lean_ty(lean_ret)} :="] + indent(body)
         if rec.needs_ok:
             lines += ["", f"/-- `{entry.rust_name}` returns normally in a release build (no division by zero, every loop "
                           f"exits within its fuel) iff this is `true` -/",
@@ -2698,6 +4008,18 @@ def trailingZerosN (w a : Nat) : Nat := if a % 2^w = 0 then w else trailingZeros
 def countZerosN (w a : Nat) : Nat := w - popcount (a % 2^w)
 def checkedSub (a b : Nat) : Option Nat := if b ≤ a then some (a - b) else none
 def checkedAddN (w a b : Nat) : Option Nat := if a + b < 2^w then some (a + b) else none
+/-- `v[i]`; the index-in-range condition is part of `<fn>_ok` -/
+def idx {α : Type} [Inhabited α] (l : List α) (i : Nat) : α := l.getD i default
+/-- `o.unwrap()`; `o.isSome` is part of `<fn>_ok` -/
+def unwrapD {α : Type} [Inhabited α] (o : Option α) : α := o.getD default
+/-- `Iterator::scan`: thread the state, stop at the first `None` -/
+def scanOpt {σ α β : Type} (f : σ → α → σ × Option β) : σ → List α → List β
+  | _, [] => []
+  | s, x :: xs => match f s x with
+    | (s', some y) => y :: scanOpt f s' xs
+    | (_, none) => []
+/-- `Iterator::enumerate` -/
+def enumerateL {α : Type} (l : List α) : List (Nat × α) := (List.range l.length).zip l
 
 end GV.Gen.Fns
 """
